@@ -1,3 +1,1493 @@
+(* Lemmas about the model of KroneckerFactoredLattice (Model/KFL.v): 1-D
+   interpolation in cell form, the monotonicity / bounds projections, the
+   invariant argument over arbitrary constraint histories, and the output
+   theorems used by Props/C07.v. *)
 From TFL Require Import Model.KFL.
 Open Scope Q_scope.
-Lemma placeholder_sgn : qsgn 0 = 0. Proof. reflexivity. Qed.
+
+
+(* ------------------------------------------------------------------ *)
+(* small arithmetic facts                                              *)
+Lemma qn_S k : qn (S k) == qn k + 1.
+Proof. unfold qn. rewrite Nat2Z.inj_succ, <- Z.add_1_r, inject_Z_plus. reflexivity. Qed.
+Lemma qn_nonneg k : 0 <= qn k.
+Proof. unfold qn. change 0 with (inject_Z 0). rewrite <- Zle_Qle. lia. Qed.
+Lemma qn_pos k : (0 < k)%nat -> 0 < qn k.
+Proof. intros H. unfold qn. change 0 with (inject_Z 0). rewrite <- Zlt_Qlt. lia. Qed.
+Lemma qn_ge1 k : (1 <= k)%nat -> 1 <= qn k.
+Proof. intros H. unfold qn. change 1 with (inject_Z 1). rewrite <- Zle_Qle. lia. Qed.
+
+Lemma qsgn_cases s : (0 < s /\ qsgn s = 1) \/ (s < 0 /\ qsgn s = -1) \/ (s == 0 /\ qsgn s = 0).
+Proof.
+  unfold qsgn. destruct (qlt 0 s) eqn:E1.
+  - left. split; [apply qlt_true; exact E1|reflexivity].
+  - apply qlt_false in E1. destruct (qlt s 0) eqn:E2.
+    + right; left. split; [apply qlt_true; exact E2|reflexivity].
+    + apply qlt_false in E2. right; right. split; [lra|reflexivity].
+Qed.
+
+Lemma qdiv_pos_mono f a b : 0 < f -> a <= b -> a / f <= b / f.
+Proof. intros Hf H. unfold Qdiv. apply Qmult_le_compat_r. exact H. apply Qlt_le_weak, Qinv_lt_0_compat, Hf. Qed.
+Lemma qdiv_pos_nonneg f a : 0 < f -> 0 <= a -> 0 <= a / f.
+Proof. intros Hf H. pose proof (qdiv_pos_mono f 0 a Hf H) as H1. unfold Qdiv in *. lra. Qed.
+
+(* ------------------------------------------------------------------ *)
+(* generic list lemmas                                                 *)
+Lemma Forall2_map2_r {A B} (P : A -> B -> Prop) (R : A -> B -> Prop) (f : A -> B -> B) l1 l2 :
+  Forall2 P l1 l2 -> (forall a b, P a b -> R a (f a b)) -> Forall2 R l1 (map2 f l1 l2).
+Proof. intros H HF. induction H; cbn [map2]; constructor; auto. Qed.
+Lemma Forall2_map_l {A B} (P R : A -> B -> Prop) (g : A -> A) l1 l2 :
+  Forall2 P l1 l2 -> (forall a b, P a b -> R (g a) b) -> Forall2 R (map g l1) l2.
+Proof. intros H HF. induction H; cbn [map]; constructor; auto. Qed.
+Lemma Forall2_impl {A B} (P R : A -> B -> Prop) l1 l2 :
+  Forall2 P l1 l2 -> (forall a b, P a b -> R a b) -> Forall2 R l1 l2.
+Proof. intros H HF. induction H; constructor; auto. Qed.
+Lemma Forall2_nth {A B} (P : A -> B -> Prop) l1 l2 u da db :
+  Forall2 P l1 l2 -> (u < length l1)%nat -> P (nth u l1 da) (nth u l2 db).
+Proof. intros H. revert u. induction H; intros u Hu; cbn in *; [lia|]. destruct u; [assumption|apply IHForall2; lia]. Qed.
+Lemma Forall2_length {A B} (P : A -> B -> Prop) l1 l2 : Forall2 P l1 l2 -> length l1 = length l2.
+Proof. induction 1; cbn; congruence. Qed.
+
+
+(* ------------------------------------------------------------------ *)
+(* 1-D interpolation                                                   *)
+Definition hatsum (off : nat) (v : vec) (x : Q) : Q :=
+  qsum (map2 Qmult (map (fun i => hat (qn i - x)) (seq off (length v))) v).
+Lemma hatsum_cons off a v x : hatsum off (a :: v) x = hat (qn off - x) * a + hatsum (S off) v x.
+Proof. reflexivity. Qed.
+Lemma hat_far z : 1 <= z \/ z <= -1 -> hat z == 0.
+Proof. intros H. unfold hat. qcases; lra. Qed.
+Lemma hat_pos z : 0 <= z -> z <= 1 -> hat z == 1 - z.
+Proof. intros H1 H2. unfold hat. qcases; lra. Qed.
+Lemma hat_neg z : z <= 0 -> -1 <= z -> hat z == 1 + z.
+Proof. intros H1 H2. unfold hat. qcases; lra. Qed.
+
+Lemma hatsum_zero : forall v off x, x <= qn off - 1 -> hatsum off v x == 0.
+Proof.
+  induction v as [|a v IH]; intros off x H. reflexivity.
+  rewrite hatsum_cons. rewrite hat_far by (left; lra).
+  rewrite IH by (rewrite qn_S; lra). lra.
+Qed.
+
+(* The same function written cell by cell: on [off, off+1] the segment from
+   v_0 to v_1, further right the rest of the list. *)
+Fixpoint cell (off : nat) (v : vec) (x : Q) : Q :=
+  match v with
+  | [] => 0
+  | a :: r => match r with
+              | [] => a
+              | b :: _ => if Qle_bool x (qn (S off)) then a + (x - qn off) * (b - a) else cell (S off) r x
+              end
+  end.
+
+Lemma cell_cons2 off a b r x :
+  cell off (a :: b :: r) x = if Qle_bool x (qn (S off)) then a + (x - qn off) * (b - a) else cell (S off) (b :: r) x.
+Proof. reflexivity. Qed.
+Lemma cell_one off a x : cell off [a] x = a.
+Proof. reflexivity. Qed.
+
+Lemma hatsum_cell : forall v off x, qn off <= x -> x <= qn off + qn (length v) - 1 -> hatsum off v x == cell off v x.
+Proof.
+  induction v as [|a r IH]; intros off x H1 H2. reflexivity.
+  destruct r as [|b r'].
+  - rewrite hatsum_cons. cbn [cell]. change (qn (length [a])) with 1 in H2.
+    rewrite hat_pos by lra. change (hatsum (S off) [] x) with 0.
+    assert (E : x == qn off) by lra. rewrite E. ring.
+  - rewrite cell_cons2. destruct (Qle_bool x (qn (S off))) eqn:E.
+    + apply Qle_bool_iff in E. rewrite qn_S in E.
+      rewrite !hatsum_cons. rewrite hatsum_zero by (rewrite !qn_S; lra).
+      rewrite hat_neg by lra. rewrite hat_pos by (rewrite qn_S; lra). rewrite qn_S. ring.
+    + assert (E' : qn (S off) < x).
+      { apply Qnot_le_lt. intro Hc. apply Qle_bool_iff in Hc. congruence. }
+      rewrite hatsum_cons. rewrite hat_far by (right; rewrite qn_S in E'; lra).
+      rewrite IH. ring. lra.
+      change (length (a :: b :: r')) with (S (length (b :: r'))) in H2. rewrite qn_S in H2. rewrite qn_S. lra.
+Qed.
+
+Lemma pwl1d_cell L v x : length v = L -> (2 <= L)%nat -> 0 <= x -> x <= qn L - 1 -> pwl1d L v x == cell 0 v x.
+Proof.
+  intros Hl HL H0 H1. unfold pwl1d, interp_weights. destruct (L =? 2)%nat eqn:E.
+  - apply Nat.eqb_eq in E. rewrite E in *. clear E HL. destruct v as [|a [|b [|c v]]]; try discriminate.
+    cbn [map2 qsum cell]. change (qn 2) with 2 in H1. change (qn 1) with 1. change (qn 0) with 0.
+    destruct (Qle_bool x 1) eqn:E1.
+    + ring.
+    + exfalso. assert (x <= 1) by lra. apply Qle_bool_iff in H. congruence.
+  - subst L. change (qsum _) with (hatsum 0 v x). apply hatsum_cell.
+    change (qn 0) with 0; lra. change (qn 0) with 0; lra.
+Qed.
+
+Fixpoint sorted (v : vec) : Prop :=
+  match v with a :: r => match r with b :: _ => a <= b /\ sorted r | [] => True end | [] => True end.
+Fixpoint rsorted (v : vec) : Prop :=
+  match v with a :: r => match r with b :: _ => b <= a /\ rsorted r | [] => True end | [] => True end.
+
+Lemma lerp_between t a b lo hi : 0 <= t -> t <= 1 -> lo <= a -> a <= hi -> lo <= b -> b <= hi ->
+  lo <= a + t * (b - a) /\ a + t * (b - a) <= hi.
+Proof.
+  intros. pose proof (qmul_nonneg t (b - lo) ltac:(lra) ltac:(lra)).
+  pose proof (qmul_nonneg (1 - t) (a - lo) ltac:(lra) ltac:(lra)).
+  pose proof (qmul_nonneg t (hi - b) ltac:(lra) ltac:(lra)).
+  pose proof (qmul_nonneg (1 - t) (hi - a) ltac:(lra) ltac:(lra)).
+  split; lra.
+Qed.
+
+Lemma cell_between lo hi : forall v off x, v <> [] -> Forall (fun w => lo <= w /\ w <= hi) v -> qn off <= x ->
+  lo <= cell off v x /\ cell off v x <= hi.
+Proof.
+  induction v as [|a r IH]; intros off x Hne HF Hx. congruence.
+  inversion HF as [|? ? [Ha1 Ha2] HF']; subst. destruct r as [|b r'].
+  - cbn [cell]. split; assumption.
+  - rewrite cell_cons2. destruct (Qle_bool x (qn (S off))) eqn:E.
+    + apply Qle_bool_iff in E. rewrite qn_S in E. inversion HF' as [|? ? [Hb1 Hb2] _]; subst.
+      apply lerp_between; lra.
+    + assert (E' : qn (S off) < x).
+      { apply Qnot_le_lt. intro Hc. apply Qle_bool_iff in Hc. congruence. }
+      apply IH. congruence. assumption. lra.
+Qed.
+
+Lemma cell_ge_head : forall v off x a r, v = a :: r -> sorted v -> qn off <= x -> a <= cell off v x.
+Proof.
+  induction v as [|a0 r0 IH]; intros off x a r E Hs Hx. discriminate.
+  injection E as -> ->. destruct r as [|b r'].
+  - cbn [cell]. lra.
+  - rewrite cell_cons2. cbn [sorted] in Hs. destruct Hs as [Hab Hs]. destruct (Qle_bool x (qn (S off))) eqn:E.
+    + pose proof (qmul_nonneg (x - qn off) (b - a) ltac:(lra) ltac:(lra)). lra.
+    + assert (E' : qn (S off) < x).
+      { apply Qnot_le_lt. intro Hc. apply Qle_bool_iff in Hc. congruence. }
+      pose proof (IH (S off) x b r' eq_refl Hs ltac:(lra)). lra.
+Qed.
+Lemma cell_le_head : forall v off x a r, v = a :: r -> rsorted v -> qn off <= x -> cell off v x <= a.
+Proof.
+  induction v as [|a0 r0 IH]; intros off x a r E Hs Hx. discriminate.
+  injection E as -> ->. destruct r as [|b r'].
+  - cbn [cell]. lra.
+  - rewrite cell_cons2. cbn [rsorted] in Hs. destruct Hs as [Hab Hs]. destruct (Qle_bool x (qn (S off))) eqn:E.
+    + pose proof (qmul_nonneg (x - qn off) (a - b) ltac:(lra) ltac:(lra)). lra.
+    + assert (E' : qn (S off) < x).
+      { apply Qnot_le_lt. intro Hc. apply Qle_bool_iff in Hc. congruence. }
+      pose proof (IH (S off) x b r' eq_refl Hs ltac:(lra)). lra.
+Qed.
+
+Lemma cell_mono : forall v off x y, sorted v -> qn off <= x -> x <= y -> cell off v x <= cell off v y.
+Proof.
+  induction v as [|a r IH]; intros off x y Hs Hx Hxy. cbn; lra.
+  destruct r as [|b r']. cbn [cell]; lra.
+  rewrite !cell_cons2. cbn [sorted] in Hs. destruct Hs as [Hab Hs].
+  destruct (Qle_bool x (qn (S off))) eqn:Ex; destruct (Qle_bool y (qn (S off))) eqn:Ey.
+  - pose proof (qmul_nonneg (y - x) (b - a) ltac:(lra) ltac:(lra)). lra.
+  - apply Qle_bool_iff in Ex. rewrite qn_S in Ex.
+    assert (Ey' : qn (S off) < y).
+    { apply Qnot_le_lt. intro Hc. apply Qle_bool_iff in Hc. congruence. }
+    pose proof (cell_ge_head (b :: r') (S off) y b r' eq_refl Hs ltac:(lra)).
+    pose proof (qmul_nonneg (1 - (x - qn off)) (b - a) ltac:(lra) ltac:(lra)). lra.
+  - exfalso. apply Qle_bool_iff in Ey.
+    assert (x <= qn (S off)) by lra. apply Qle_bool_iff in H. congruence.
+  - assert (Ex' : qn (S off) < x).
+    { apply Qnot_le_lt. intro Hc. apply Qle_bool_iff in Hc. congruence. }
+    apply IH; [assumption|lra|assumption].
+Qed.
+Lemma cell_anti : forall v off x y, rsorted v -> qn off <= x -> x <= y -> cell off v y <= cell off v x.
+Proof.
+  induction v as [|a r IH]; intros off x y Hs Hx Hxy. cbn; lra.
+  destruct r as [|b r']. cbn [cell]; lra.
+  rewrite !cell_cons2. cbn [rsorted] in Hs. destruct Hs as [Hab Hs].
+  destruct (Qle_bool x (qn (S off))) eqn:Ex; destruct (Qle_bool y (qn (S off))) eqn:Ey.
+  - pose proof (qmul_nonneg (y - x) (a - b) ltac:(lra) ltac:(lra)). lra.
+  - apply Qle_bool_iff in Ex. rewrite qn_S in Ex.
+    assert (Ey' : qn (S off) < y).
+    { apply Qnot_le_lt. intro Hc. apply Qle_bool_iff in Hc. congruence. }
+    pose proof (cell_le_head (b :: r') (S off) y b r' eq_refl Hs ltac:(lra)).
+    pose proof (qmul_nonneg (1 - (x - qn off)) (a - b) ltac:(lra) ltac:(lra)). lra.
+  - exfalso. apply Qle_bool_iff in Ey.
+    assert (x <= qn (S off)) by lra. apply Qle_bool_iff in H. congruence.
+  - assert (Ex' : qn (S off) < x).
+    { apply Qnot_le_lt. intro Hc. apply Qle_bool_iff in Hc. congruence. }
+    apply IH; [assumption|lra|assumption].
+Qed.
+
+
+(* ------------------------------------------------------------------ *)
+(* products and means                                                  *)
+Lemma qprod_le l l' : Forall2 (fun a b => 0 <= a /\ a <= b) l l' -> 0 <= qprod l /\ qprod l <= qprod l'.
+Proof.
+  induction 1 as [|a b l l' [Ha Hab] _ [IH1 IH2]]; cbn [qprod]. split; lra.
+  pose proof (qmul_nonneg a (qprod l) Ha IH1).
+  pose proof (qmul_le_l a _ _ Ha IH2).
+  pose proof (qmul_nonneg (b - a) (qprod l') ltac:(lra) ltac:(lra)).
+  split; lra.
+Qed.
+Lemma qprod_abs l ms : Forall2 (fun a m => - m <= a /\ a <= m) l ms -> - qprod ms <= qprod l /\ qprod l <= qprod ms.
+Proof.
+  induction 1 as [|a m l ms [Ha1 Ha2] _ [IH1 IH2]]; cbn [qprod]. split; lra.
+  pose proof (qmul_nonneg (m - a) (qprod ms + qprod l) ltac:(lra) ltac:(lra)).
+  pose proof (qmul_nonneg (m + a) (qprod ms - qprod l) ltac:(lra) ltac:(lra)).
+  pose proof (qmul_nonneg (m - a) (qprod ms - qprod l) ltac:(lra) ltac:(lra)).
+  pose proof (qmul_nonneg (m + a) (qprod ms + qprod l) ltac:(lra) ltac:(lra)).
+  split; lra.
+Qed.
+
+Lemma qsum_bounds l lo hi : Forall (fun a => lo <= a /\ a <= hi) l ->
+  qn (length l) * lo <= qsum l /\ qsum l <= qn (length l) * hi.
+Proof.
+  induction 1 as [|a l [H1 H2] _ [IH1 IH2]]; cbn [qsum length]. change (qn 0) with 0. split; lra.
+  rewrite qn_S. split; lra.
+Qed.
+Lemma qmean_between l lo hi : l <> [] -> Forall (fun a => lo <= a /\ a <= hi) l -> lo <= qmean l /\ qmean l <= hi.
+Proof.
+  intros Hne HF. destruct (qsum_bounds l lo hi HF) as [H1 H2]. unfold qmean.
+  assert (Hc : 0 < qn (length l)) by (apply qn_pos; destruct l; [congruence|cbn; lia]).
+  split.
+  - apply Qle_shift_div_l. exact Hc. lra.
+  - apply Qle_shift_div_r. exact Hc. lra.
+Qed.
+Lemma qsum_le l l' : Forall2 Qle l l' -> qsum l <= qsum l'.
+Proof. induction 1; cbn [qsum]; lra. Qed.
+Lemma qmean_le l l' : Forall2 Qle l l' -> qmean l <= qmean l'.
+Proof.
+  intros H. unfold qmean. rewrite <- (Forall2_length _ _ _ H).
+  destruct l as [|a l]. inversion H; subst. cbn. lra.
+  apply qdiv_pos_mono. apply qn_pos; cbn; lia. apply qsum_le, H.
+Qed.
+
+(* ------------------------------------------------------------------ *)
+(* elementwise maps, cumulative max / min                              *)
+Lemma sorted_map g v : (forall x y, x <= y -> g x <= g y) -> sorted v -> sorted (map g v).
+Proof. intros Hg. induction v as [|a r IH]; intros H. exact I. destruct r as [|b r']. exact I.
+  destruct H as [H1 H2]. split. apply Hg, H1. apply IH, H2. Qed.
+Lemma rsorted_map g v : (forall x y, x <= y -> g x <= g y) -> rsorted v -> rsorted (map g v).
+Proof. intros Hg. induction v as [|a r IH]; intros H. exact I. destruct r as [|b r']. exact I.
+  destruct H as [H1 H2]. split. apply Hg, H1. apply IH, H2. Qed.
+Lemma sorted_map_anti g v : (forall x y, x <= y -> g y <= g x) -> sorted v -> rsorted (map g v).
+Proof. intros Hg. induction v as [|a r IH]; intros H. exact I. destruct r as [|b r']. exact I.
+  destruct H as [H1 H2]. split. apply Hg, H1. apply IH, H2. Qed.
+
+Lemma cummin_back_cons a r :
+  cummin_back (a :: r) = match cummin_back r with [] => [a] | (y :: _) as r' => qmin a y :: r' end.
+Proof. reflexivity. Qed.
+Lemma cummin_back_sorted v : sorted (cummin_back v).
+Proof.
+  induction v as [|a r IH]. exact I. rewrite cummin_back_cons.
+  destruct (cummin_back r) as [|y l]. exact I. split. apply qmin_r. exact IH.
+Qed.
+Lemma cummin_back_length v : length (cummin_back v) = length v.
+Proof.
+  induction v as [|a r IH]. reflexivity. rewrite cummin_back_cons.
+  destruct (cummin_back r) as [|y l]; cbn [length] in *; lia.
+Qed.
+Lemma qmin_either a b : qmin a b = a \/ qmin a b = b.
+Proof. unfold qmin. destruct (Qle_bool a b); auto. Qed.
+Lemma qmax_either a b : qmax a b = a \/ qmax a b = b.
+Proof. unfold qmax. destruct (Qle_bool a b); auto. Qed.
+Lemma cummin_back_Forall (P : Q -> Prop) v : Forall P v -> Forall P (cummin_back v).
+Proof.
+  induction 1 as [|a r Ha _ IH]. constructor. rewrite cummin_back_cons.
+  destruct (cummin_back r) as [|y l]. constructor; [assumption|constructor].
+  constructor; [|assumption]. inversion IH; subst. destruct (qmin_either a y) as [-> | ->]; assumption.
+Qed.
+Lemma cummax_from_Forall (P : Q -> Prop) : forall l m, P m -> Forall P l -> Forall P (cummax_from m l).
+Proof.
+  induction l as [|x r IH]; intros m Hm H; cbn [cummax_from]. constructor.
+  inversion H; subst. assert (P (qmax x m)) by (destruct (qmax_either x m) as [-> | ->]; assumption).
+  constructor; auto.
+Qed.
+Lemma cummax_Forall (P : Q -> Prop) v : Forall P v -> Forall P (cummax v).
+Proof. destruct 1; cbn [cummax]. constructor. constructor; [assumption|apply cummax_from_Forall; assumption]. Qed.
+Lemma cummax_from_length : forall l m, length (cummax_from m l) = length l.
+Proof. induction l; intros; cbn; auto. Qed.
+Lemma cummax_length v : length (cummax v) = length v.
+Proof. destruct v; cbn; [|rewrite cummax_from_length]; reflexivity. Qed.
+Lemma map2_Forall {A} (P : A -> Prop) (f : A -> A -> A) : forall a b,
+  (forall x y, P x -> P y -> P (f x y)) -> Forall P a -> Forall P b -> Forall P (map2 f a b).
+Proof.
+  induction a as [|x a IH]; intros [|y b] Hf Ha Hb; cbn [map2]; try constructor;
+  inversion Ha; inversion Hb; subst; auto.
+Qed.
+
+Lemma mono_proj1_sorted v : sorted (mono_proj1 v).
+Proof. apply cummin_back_sorted. Qed.
+Lemma mono_proj1_length v : length (mono_proj1 v) = length v.
+Proof. unfold mono_proj1. rewrite cummin_back_length, map2_length, cummax_length. lia. Qed.
+Lemma mono_proj1_nonneg v : Forall (fun w => 0 <= w) v -> Forall (fun w => 0 <= w) (mono_proj1 v).
+Proof.
+  intros H. apply cummin_back_Forall. apply map2_Forall; [|assumption|apply cummax_Forall; assumption].
+  cbn; intros; lra.
+Qed.
+Lemma mono_proj1_nonpos v : Forall (fun w => w <= 0) v -> Forall (fun w => w <= 0) (mono_proj1 v).
+Proof.
+  intros H. apply cummin_back_Forall. apply map2_Forall; [|assumption|apply cummax_Forall; assumption].
+  cbn; intros; lra.
+Qed.
+
+
+(* ------------------------------------------------------------------ *)
+(* term-level predicates                                               *)
+Definition vnonneg (v : vec) : Prop := Forall (fun w => 0 <= w) v.
+Definition tnonneg (vs : term) : Prop := Forall vnonneg vs.
+Definition tshape (L dims : nat) (vs : term) : Prop := length vs = dims /\ Forall (fun v => length v = L) vs.
+Definition prodmax (vs : term) : Q := qprod (map maxabs vs).
+
+(* what the kernel constraint establishes for the monotone inputs, relative to
+   the sign of the scale of the term *)
+Definition term_good (ms : list bool) (s : Q) (vs : term) : Prop :=
+  s == 0 \/
+  (0 < s /\ tnonneg vs /\ Forall2 (fun (m : bool) v => m = true -> sorted v) ms vs) \/
+  (s < 0 /\ tnonneg vs /\ Forall2 (fun (m : bool) v => m = true -> rsorted v) ms vs).
+
+Lemma Forall_map_impl {A B} (P : A -> Prop) (P' : B -> Prop) (g : A -> B) l :
+  Forall P l -> (forall x, P x -> P' (g x)) -> Forall P' (map g l).
+Proof. induction 1; cbn [map]; constructor; auto. Qed.
+Lemma Forall_map_any {A B} (P' : B -> Prop) (g : A -> B) l : (forall x, P' (g x)) -> Forall P' (map g l).
+Proof. intros H. induction l; cbn [map]; constructor; auto. Qed.
+Lemma Forall_map2_any {A B C} (P : C -> Prop) (f : A -> B -> C) a b : (forall x y, P (f x y)) -> Forall P (map2 f a b).
+Proof. intros H. revert b. induction a as [|x a IH]; intros [|y b]; cbn [map2]; constructor; auto. Qed.
+Lemma Forall2_map2_any {A B} (R : B -> A -> Prop) (f : A -> B -> A) : forall a b,
+  length a = length b -> (forall x y, R y (f x y)) -> Forall2 R b (map2 f a b).
+Proof. induction a as [|x a IH]; intros [|y b] Hl H; cbn in *; try discriminate; constructor; auto. Qed.
+Lemma Forall2_map_r {A B} (R R' : A -> B -> Prop) (g : B -> B) l1 l2 :
+  Forall2 R l1 l2 -> (forall a b, R a b -> R' a (g b)) -> Forall2 R' l1 (map g l2).
+Proof. induction 1; cbn [map]; constructor; auto. Qed.
+
+(* ---- elementwise post-processing (bounds stage) preserves goodness ---- *)
+Lemma term_good_map g ms s vs :
+  (forall x y, x <= y -> g x <= g y) -> (forall x, 0 <= x -> 0 <= g x) ->
+  term_good ms s vs -> term_good ms s (map (map g) vs).
+Proof.
+  intros Hm Hp [H|[(Hs & Hn & Hso)|(Hs & Hn & Hso)]]; [left; assumption|right; left|right; right];
+  (split; [assumption|split]).
+  - apply Forall_map_impl with (P := vnonneg); [assumption|]. intros v Hv. apply Forall_map_impl with (P := fun w => 0 <= w); auto.
+  - apply Forall2_map_r with (R := fun (m : bool) v => m = true -> sorted v); [assumption|].
+    intros m v H E. apply sorted_map; auto.
+  - apply Forall_map_impl with (P := vnonneg); [assumption|]. intros v Hv. apply Forall_map_impl with (P := fun w => 0 <= w); auto.
+  - apply Forall2_map_r with (R := fun (m : bool) v => m = true -> rsorted v); [assumption|].
+    intros m v H E. apply rsorted_map; auto.
+Qed.
+Lemma tshape_map g L dims vs : tshape L dims vs -> tshape L dims (map (map g) vs).
+Proof.
+  intros [H1 H2]. split. rewrite map_length; assumption.
+  apply Forall_map_impl with (P := fun v => length v = L); [assumption|]. intros v Hv. rewrite map_length; assumption.
+Qed.
+
+(* ---- the monotonicity stage ---- *)
+Definition relu (w : Q) : Q := qmax w 0.
+Definition pv (dir : Q) (m : bool) (v : vec) : vec :=
+  vscale dir (if m then mono_proj1 (vscale dir (map relu v)) else vscale dir (map relu v)).
+Lemma project_mono_term_pv ms s vs :
+  project_mono_term ms s (clip0 vs) = map2 (fun v m => pv (qsgn s) m v) vs ms.
+Proof.
+  unfold project_mono_term, clip0. generalize (qsgn s) as dir. intros dir. revert ms.
+  induction vs as [|v vs IH]; intros [|m ms]; cbn [map map2]; try reflexivity.
+  f_equal. apply IH.
+Qed.
+Lemma pv_length dir m v : length (pv dir m v) = length v.
+Proof. unfold pv, vscale. destruct m; rewrite !map_length, ?mono_proj1_length, ?map_length; reflexivity. Qed.
+
+Lemma relu_nonneg v : vnonneg (map relu v).
+Proof. apply Forall_map_any. intros x. unfold relu. apply qmax_r. Qed.
+
+Lemma pv_pos_nonneg m v : vnonneg (pv 1 m v).
+Proof.
+  unfold pv, vscale.
+  assert (H : vnonneg (map (fun w => 1 * w) (map relu v))).
+  { apply Forall_map_impl with (P := fun w => 0 <= w). apply relu_nonneg. intros; lra. }
+  apply Forall_map_impl with (P := fun w => 0 <= w); [|intros; lra].
+  destruct m; [apply mono_proj1_nonneg|]; exact H.
+Qed.
+Lemma pv_pos_sorted v : sorted (pv 1 true v).
+Proof. unfold pv, vscale. apply sorted_map. intros; lra. apply mono_proj1_sorted. Qed.
+Lemma pv_neg_nonneg m v : vnonneg (pv (-1) m v).
+Proof.
+  unfold pv, vscale.
+  assert (H : Forall (fun w => w <= 0) (map (fun w => -1 * w) (map relu v))).
+  { apply Forall_map_impl with (P := fun w => 0 <= w). apply relu_nonneg. intros; lra. }
+  apply Forall_map_impl with (P := fun w => w <= 0); [|intros; lra].
+  destruct m; [apply mono_proj1_nonpos|]; exact H.
+Qed.
+Lemma pv_neg_rsorted v : rsorted (pv (-1) true v).
+Proof. unfold pv, vscale. apply sorted_map_anti. intros; lra. apply mono_proj1_sorted. Qed.
+
+Lemma project_mono_term_good ms s vs : length vs = length ms ->
+  term_good ms s (project_mono_term ms s (clip0 vs)).
+Proof.
+  intros Hl. rewrite project_mono_term_pv.
+  destruct (qsgn_cases s) as [[Hs ->]|[[Hs ->]|[Hs ->]]].
+  - right; left. split; [assumption|split].
+    + apply Forall_map2_any. intros; apply pv_pos_nonneg.
+    + apply Forall2_map2_any. assumption. intros v m ->. apply pv_pos_sorted.
+  - right; right. split; [assumption|split].
+    + apply Forall_map2_any. intros; apply pv_neg_nonneg.
+    + apply Forall2_map2_any. assumption. intros v m ->. apply pv_neg_rsorted.
+  - left; assumption.
+Qed.
+Lemma project_mono_term_shape L dims ms s vs : length ms = dims -> tshape L dims vs ->
+  tshape L dims (project_mono_term ms s (clip0 vs)).
+Proof.
+  intros Hm [H1 H2]. rewrite project_mono_term_pv. split.
+  - rewrite map2_length. lia.
+  - clear H1 Hm. revert ms. induction H2 as [|v vs Hv _ IH]; intros [|m ms]; cbn [map2]; constructor.
+    rewrite pv_length; assumption. apply IH.
+Qed.
+
+(* ---- the bounds stage ---- *)
+Section Root.
+Variable root : nat -> Q -> Q.
+(* the only facts used about tf.pow(x, 1/d) *)
+(* the only facts used about tf.pow(x, 1/d), for x >= 1: the result is >= 1, its
+   d-th power is not below x (an exact root where one exists, else any upper
+   approximation: there is no exact rational square root of 2), and 1 for x = 1 *)
+Definition root_ok : Prop := forall d x, (1 <= d)%nat -> 1 <= x ->
+  1 <= root d x /\ x <= qpow (root d x) d /\ (x == 1 -> root d x == 1).
+Hypothesis Hroot : root_ok.
+
+Lemma qabs_div w f : 0 < f -> qabs (w / f) == qabs w / f.
+Proof.
+  intros Hf. assert (Hi : 0 < / f) by (apply Qinv_lt_0_compat, Hf). unfold Qdiv.
+  destruct (qabs_spec w) as [[H1 ->]|[H1 ->]]; destruct (qabs_spec (w * / f)) as [[H2 ->]|[H2 ->]]; try lra.
+  - pose proof (qmul_nonneg w (/ f) H1 ltac:(lra)). lra.
+  - pose proof (qmul_nonneg (- w) (/ f) ltac:(lra) ltac:(lra)).
+    assert (w * / f == 0) by lra. lra.
+Qed.
+Lemma maxabs_nonneg v : 0 <= maxabs v.
+Proof.
+  unfold maxabs. destruct v as [|a v]. cbn; lra.
+  pose proof (qmaxl_ge (map qabs (a :: v)) (qabs a) (or_introl eq_refl)). pose proof (qabs_nonneg a). lra.
+Qed.
+Lemma maxabs_div_le v f : 0 < f -> maxabs (map (fun w => w / f) v) <= maxabs v / f.
+Proof.
+  intros Hf. destruct v as [|a v].
+  - cbn. unfold Qdiv. lra.
+  - unfold maxabs. apply qmaxl_lub. cbn; congruence.
+    intros x Hx. rewrite map_map in Hx. apply in_map_iff in Hx. destruct Hx as [w [<- Hw]].
+    rewrite qabs_div by assumption. apply qdiv_pos_mono. assumption.
+    apply qmaxl_ge. apply in_map. assumption.
+Qed.
+Lemma qprod_map_div (g : vec -> Q) f vs : ~ f == 0 ->
+  qprod (map (fun v => g v / f) vs) * qpow f (length vs) == qprod (map g vs).
+Proof.
+  intros Hf. induction vs as [|v vs IH]; cbn [map qprod length qpow]. ring.
+  rewrite <- IH. field. assumption.
+Qed.
+Lemma prodmax_nonneg vs : 0 <= prodmax vs.
+Proof.
+  unfold prodmax. induction vs as [|v vs IH]; cbn [map qprod]. lra.
+  apply qmul_nonneg. apply maxabs_nonneg. exact IH.
+Qed.
+
+Lemma prodmax_after_div vs :
+  (1 <= length vs)%nat ->
+  let f := root (length vs) (qmax (prodmax vs) 1) in
+  0 < f /\ prodmax (map (map (fun w => w / f)) vs) <= 1.
+Proof.
+  intros Hd f.
+  destruct (Hroot (length vs) (qmax (prodmax vs) 1) Hd (qmax_r _ _)) as (Hf1 & Hf2 & _). fold f in Hf1, Hf2.
+  assert (Hf : 0 < f) by lra. split. exact Hf.
+  assert (H1 : 0 <= prodmax (map (map (fun w => w / f)) vs) /\
+               prodmax (map (map (fun w => w / f)) vs) <= qprod (map (fun v => maxabs v / f) vs)).
+  { unfold prodmax. rewrite map_map. apply qprod_le.
+    clear - Hf. clearbody f. induction vs as [|v vs IH]; cbn [map]; constructor; [|exact IH]. split.
+    apply maxabs_nonneg. apply maxabs_div_le. exact Hf. }
+  destruct H1 as [_ H1].
+  pose proof (qprod_map_div maxabs f vs ltac:(lra)) as H2. fold (prodmax vs) in H2.
+  set (P' := qprod (map (fun v => maxabs v / f) vs)) in *.
+  pose proof (qmax_l (prodmax vs) 1) as H3. pose proof (qmax_r (prodmax vs) 1) as H4.
+  set (M := qmax (prodmax vs) 1) in *. set (F := qpow f (length vs)) in *.
+  (* P' * F == P <= M <= F, 1 <= F  ->  P' <= 1 *)
+  assert (P' <= 1).
+  { destruct (Qlt_le_dec 1 P') as [Hc|Hc]; [|exact Hc]. exfalso.
+    assert (0 < (P' - 1) * F). { apply Qmult_lt_0_compat; lra. } lra. }
+  lra.
+Qed.
+End Root.
+
+
+(* ------------------------------------------------------------------ *)
+(* scale constraint                                                    *)
+Definition bounds_ok (omin omax : option Q) : Prop :=
+  forall lo hi, omin = Some lo -> omax = Some hi -> lo < hi.
+
+Lemma finalize_scale1_sign omin omax s : bounds_ok omin omax ->
+  (0 < finalize_scale1 omin omax s -> 0 < s) /\ (finalize_scale1 omin omax s < 0 -> s < 0).
+Proof.
+  intros Hb. unfold finalize_scale1. destruct omin as [lo|], omax as [hi|].
+  - specialize (Hb lo hi eq_refl eq_refl). unfold qclip. split; intros H; qcases; lra.
+  - split; intros H; qcases; lra.
+  - split; intros H; qcases; lra.
+  - split; intros H; lra.
+Qed.
+Lemma finalize_scale1_qsgn omin omax s : bounds_ok omin omax ->
+  qsgn (finalize_scale1 omin omax s) = qsgn s \/ qsgn (finalize_scale1 omin omax s) = 0.
+Proof.
+  intros Hb. destruct (finalize_scale1_sign omin omax s Hb) as [H1 H2].
+  destruct (qsgn_cases (finalize_scale1 omin omax s)) as [[Hs ->]|[[Hs ->]|[Hs ->]]]; [| |right; reflexivity]; left.
+  - destruct (qsgn_cases s) as [[Hs' ->]|[[Hs' ->]|[Hs' ->]]]; [reflexivity| |]; specialize (H1 Hs); lra.
+  - destruct (qsgn_cases s) as [[Hs' ->]|[[Hs' ->]|[Hs' ->]]]; [|reflexivity|]; specialize (H2 Hs); lra.
+Qed.
+(* with two-sided bounds (or none) the sign is kept exactly *)
+Lemma finalize_scale1_qsgn_two_sided lo hi s : lo < hi ->
+  qsgn (finalize_scale1 (Some lo) (Some hi) s) = qsgn s.
+Proof.
+  intros Hb. cbn [finalize_scale1]. unfold qclip.
+  destruct (qsgn_cases s) as [[Hs ->]|[[Hs ->]|[Hs ->]]];
+  match goal with |- qsgn ?e = _ => destruct (qsgn_cases e) as [[Hs' ->]|[[Hs' ->]|[Hs' ->]]] end;
+  try reflexivity; exfalso; revert Hs'; qcases; lra.
+Qed.
+Lemma finalize_scale1_idem omin omax s : bounds_ok omin omax ->
+  finalize_scale1 omin omax (finalize_scale1 omin omax s) == finalize_scale1 omin omax s.
+Proof.
+  intros Hb. unfold finalize_scale1. destruct omin as [lo|], omax as [hi|].
+  - specialize (Hb lo hi eq_refl eq_refl). unfold qclip. qcases; lra.
+  - qcases; lra.
+  - qcases; lra.
+  - reflexivity.
+Qed.
+
+Lemma term_good_scale ms omin omax s vs : bounds_ok omin omax ->
+  term_good ms s vs -> term_good ms (finalize_scale1 omin omax s) vs.
+Proof.
+  intros Hb H. destruct (finalize_scale1_sign omin omax s Hb) as [H1 H2].
+  destruct (Qlt_le_dec 0 (finalize_scale1 omin omax s)) as [Hp|Hp].
+  - specialize (H1 Hp). destruct H as [H|[H|H]]; [lra| |destruct H; lra].
+    right; left. destruct H as (_ & Ha & Hb'). auto.
+  - destruct (Qlt_le_dec (finalize_scale1 omin omax s) 0) as [Hn|Hn].
+    + specialize (H2 Hn). destruct H as [H|[H|H]]; [lra|destruct H; lra|].
+      right; right. destruct H as (_ & Ha & Hb'). auto.
+    + left. lra.
+Qed.
+
+(* ------------------------------------------------------------------ *)
+(* what the two constraints establish, per (unit, term)                *)
+Definition kgood (c : config) (s : Q) (vs : term) : Prop :=
+  (forall ms, canon_monos (c_monos c) = Some ms -> (0 < count_true ms)%nat -> term_good ms s vs) /\
+  (is_some (c_min c) = true -> is_some (c_max c) = true -> prodmax vs <= 1) /\
+  (is_some (c_min c) <> is_some (c_max c) -> tnonneg vs).
+Definition sgood (c : config) (s : Q) : Prop :=
+  match c_min c, c_max c with
+  | Some lo, Some hi => - ((hi - lo) * (1#2)) <= s /\ s <= (hi - lo) * (1#2)
+  | Some _, None => 0 <= s
+  | None, Some _ => s <= 0
+  | None, None => True
+  end.
+Definition cfg_ok (c : config) (dims : nat) : Prop :=
+  (2 <= c_size c)%nat /\ (1 <= dims)%nat /\ bounds_ok (c_min c) (c_max c) /\
+  (forall ms, canon_monos (c_monos c) = Some ms -> length ms = dims).
+
+Lemma sgood_finalize c s : bounds_ok (c_min c) (c_max c) -> sgood c (finalize_scale1 (c_min c) (c_max c) s).
+Proof.
+  intros Hb. unfold sgood, finalize_scale1. destruct (c_min c) as [lo|], (c_max c) as [hi|].
+  - specialize (Hb lo hi eq_refl eq_refl). unfold qclip. split; qcases; lra.
+  - apply qmax_r.
+  - apply qmin_r.
+  - exact I.
+Qed.
+Lemma kgood_scale c s vs : bounds_ok (c_min c) (c_max c) ->
+  kgood c s vs -> kgood c (finalize_scale1 (c_min c) (c_max c) s) vs.
+Proof.
+  intros Hb (H1 & H2 & H3). split; [|split]; auto.
+  intros ms E Hc. apply term_good_scale; auto.
+Qed.
+
+Section Root.
+Variable root : nat -> Q -> Q.
+Hypothesis Hroot : root_ok root.
+
+Lemma bounds_stage omin omax L dims ms s t : (1 <= dims)%nat -> tshape L dims t ->
+  let t' := if is_some omin || is_some omax then project_bounds_term root omin omax t else t in
+  tshape L dims t' /\ (term_good ms s t -> term_good ms s t') /\
+  (is_some omin = true -> is_some omax = true -> prodmax t' <= 1) /\
+  (is_some omin <> is_some omax -> tnonneg t').
+Proof.
+  intros Hd Hsh.
+  assert (Hrelu : tnonneg (clip0 t)).
+  { unfold clip0. apply Forall_map_any. intros v. apply (relu_nonneg v). }
+  destruct omin as [lo|], omax as [hi|]; cbn [is_some orb project_bounds_term].
+  - destruct (prodmax_after_div root Hroot t) as [Hf Hp]. destruct Hsh; lia.
+    split; [apply tshape_map; assumption|split; [|split]].
+    + apply term_good_map. intros; apply qdiv_pos_mono; assumption. intros; apply qdiv_pos_nonneg; assumption.
+    + intros _ _. exact Hp.
+    + intros H; congruence.
+  - split; [apply tshape_map; assumption|split; [|split]].
+    + apply term_good_map. intros; apply qmax_mono; lra. intros; apply qmax_r.
+    + intros _ H; discriminate.
+    + intros _. exact Hrelu.
+  - split; [apply tshape_map; assumption|split; [|split]].
+    + apply term_good_map. intros; apply qmax_mono; lra. intros; apply qmax_r.
+    + intros H; discriminate.
+    + intros _. exact Hrelu.
+  - split; [assumption|split; [auto|split]].
+    + intros H; discriminate.
+    + intros H; congruence.
+Qed.
+
+(* the kernel constraint of the layer on one (unit, term) *)
+Definition Kt (c : config) (s : Q) (vs : term) : term :=
+  finalize_weights_term root (canon_monos (c_monos c)) (c_min c) (c_max c) s vs.
+Definition gate (c : config) : bool :=
+  (0 <? num_constraint_dims (canon_monos (c_monos c)))%nat || is_some (c_min c) || is_some (c_max c).
+
+Lemma Kt_good c dims s vs : cfg_ok c dims -> tshape (c_size c) dims vs ->
+  tshape (c_size c) dims (Kt c s vs) /\ kgood c s (Kt c s vs).
+Proof.
+  intros (HL & Hd & Hb & Hms) Hsh. unfold Kt, finalize_weights_term.
+  destruct (canon_monos (c_monos c)) as [ms|] eqn:Em.
+  - specialize (Hms ms eq_refl). destruct (0 <? count_true ms)%nat eqn:Ec.
+    + pose proof (project_mono_term_shape (c_size c) dims ms s vs Hms Hsh) as Hsh1.
+      pose proof (project_mono_term_good ms s vs ltac:(destruct Hsh; lia)) as Hg1.
+      destruct (bounds_stage (c_min c) (c_max c) (c_size c) dims ms s _ Hd Hsh1) as (B1 & B2 & B3 & B4).
+      split; [exact B1|]. split; [|split; assumption].
+      intros ms' E _. rewrite Em in E. injection E as <-. apply B2, Hg1.
+    + destruct (bounds_stage (c_min c) (c_max c) (c_size c) dims ms s _ Hd Hsh) as (B1 & B2 & B3 & B4).
+      split; [exact B1|]. split; [|split; assumption].
+      intros ms' E Hc. rewrite Em in E. injection E as <-. apply Nat.ltb_ge in Ec. lia.
+  - destruct (bounds_stage (c_min c) (c_max c) (c_size c) dims [] s _ Hd Hsh) as (B1 & B2 & B3 & B4).
+    split; [exact B1|]. split; [|split; assumption]. intros ms' E; rewrite Em in E; discriminate.
+Qed.
+Lemma kgood_gate_closed c s vs : gate c = false -> kgood c s vs.
+Proof.
+  unfold gate. intros H. apply orb_false_iff in H. destruct H as [H H3]. apply orb_false_iff in H. destruct H as [H1 H2].
+  split; [|split].
+  - intros ms E Hc. rewrite E in H1. cbn [num_constraint_dims] in H1. apply Nat.ltb_ge in H1. lia.
+  - intros H; congruence.
+  - intros H; congruence.
+Qed.
+
+(* ------------------------------------------------------------------ *)
+(* the layer's operations, reduced to the two gated calls              *)
+Definition opK (c : config) (p : params) : params :=
+  mkPar (kfl_constraints_call root c (p_scale p) (p_kern p)) (p_scale p) (p_bias p).
+Definition opS (c : config) (p : params) : params :=
+  mkPar (p_kern p) (scale_constraints_call c (p_scale p)) (p_bias p).
+
+Lemma kernel_variable_constraint_eq c s k :
+  kernel_variable_constraint root c s k = kfl_constraints_call root c s k.
+Proof.
+  unfold kernel_variable_constraint, kfl_constraints_call, has_bounds.
+  destruct (canon_monos (c_monos c)) as [ms|]; cbn [is_some orb]. reflexivity.
+  destruct (is_some (c_min c) || is_some (c_max c)) eqn:E. reflexivity.
+  cbn [num_constraint_dims]. rewrite <- orb_assoc, E. reflexivity.
+Qed.
+Lemma scale_variable_constraint_eq c s : scale_variable_constraint c s = scale_constraints_call c s.
+Proof. unfold scale_variable_constraint, scale_constraints_call. destruct (has_bounds c); reflexivity. Qed.
+Lemma apply_step_ops c p st :
+  apply_step root c p st = match st with StepK => opK c p | StepS => opS c p | StepF => opS c (opK c p) end.
+Proof.
+  destruct st; cbn [apply_step]; unfold opK, opS; cbn [p_kern p_scale p_bias].
+  - rewrite kernel_variable_constraint_eq. reflexivity.
+  - rewrite scale_variable_constraint_eq. reflexivity.
+  - reflexivity.
+Qed.
+
+Definition Ktg (c : config) (s : Q) (vs : term) : term := if gate c then Kt c s vs else vs.
+Definition S1 (c : config) (s : Q) : Q := finalize_scale1 (c_min c) (c_max c) s.
+Definition hasK (steps : list step) : bool := existsb (fun st => match st with StepS => false | _ => true end) steps.
+Definition hasS (steps : list step) : bool := existsb (fun st => match st with StepK => false | _ => true end) steps.
+Definition shaped (c : config) (dims : nat) (p : params) : Prop :=
+  Forall2 (Forall2 (fun (_ : Q) vs => tshape (c_size c) dims vs)) (p_scale p) (p_kern p).
+
+(* Generic invariant argument: PK is established by the kernel constraint on
+   every (unit, term) and survives the scale constraint; PS is established by
+   the scale constraint (the kernel constraint does not touch the scale). *)
+Section Inv.
+Variable c : config.
+Variable dims : nat.
+Variable PK : Q -> term -> Prop.
+Variable PS : Q -> Prop.
+Hypothesis HK : forall s vs, tshape (c_size c) dims vs -> tshape (c_size c) dims (Ktg c s vs) /\ PK s (Ktg c s vs).
+Hypothesis HKS : forall s vs, PK s vs -> PK (S1 c s) vs.
+Hypothesis HS : forall s, PS (S1 c s).
+
+Definition inv (a b : bool) (p : params) : Prop :=
+  Forall2 (Forall2 (fun s vs => tshape (c_size c) dims vs /\ (a = true -> PK s vs) /\ (b = true -> PS s)))
+          (p_scale p) (p_kern p).
+
+Lemma inv_opK a b p : inv a b p -> inv true b (opK c p).
+Proof.
+  intros H. unfold inv, opK in *. cbn [p_kern p_scale]. unfold kfl_constraints_call. fold (gate c).
+  destruct (gate c) eqn:G.
+  - unfold finalize_weights. eapply Forall2_map2_r. exact H. cbn beta.
+    intros su ku Hu. eapply Forall2_map2_r. exact Hu. cbn beta.
+    intros s vs (Hsh & _ & Hs). destruct (HK s vs Hsh) as [K1 K2]. unfold Ktg in K1, K2. rewrite G in K1, K2.
+    split; [exact K1|split; [intros _; exact K2|exact Hs]].
+  - eapply Forall2_impl. exact H. cbn beta. intros su ku Hu. eapply Forall2_impl. exact Hu. cbn beta.
+    intros s vs (Hsh & _ & Hs). destruct (HK s vs Hsh) as [K1 K2]. unfold Ktg in K1, K2. rewrite G in K1, K2.
+    split; [exact Hsh|split; [intros _; exact K2|exact Hs]].
+Qed.
+Lemma inv_opS a b p : inv a b p -> inv a true (opS c p).
+Proof.
+  intros H. unfold inv, opS in *. cbn [p_kern p_scale]. unfold scale_constraints_call.
+  destruct (has_bounds c) eqn:G.
+  - eapply Forall2_map_l. exact H. cbn beta. intros su ku Hu. eapply Forall2_map_l. exact Hu. cbn beta.
+    intros s vs (Hsh & Hk & _). split; [exact Hsh|split].
+    + intros E. apply HKS; auto.
+    + intros _. apply HS.
+  - eapply Forall2_impl. exact H. cbn beta. intros su ku Hu. eapply Forall2_impl. exact Hu. cbn beta.
+    intros s vs (Hsh & Hk & _). split; [exact Hsh|split; [exact Hk|intros _]].
+    pose proof (HS s) as Hs. unfold S1, has_bounds in *. destruct (c_min c), (c_max c); cbn in G; try discriminate. exact Hs.
+Qed.
+
+Lemma run_inv : forall steps a b p, inv a b p -> inv (a || hasK steps) (b || hasS steps) (run root c steps p).
+Proof.
+  induction steps as [|st steps IH]; intros a b p H.
+  - cbn. rewrite !orb_false_r. exact H.
+  - unfold run. cbn [fold_left]. fold (run root c steps (apply_step root c p st)).
+    rewrite apply_step_ops. destruct st; cbn [hasK hasS existsb].
+    + specialize (IH true b _ (inv_opK a b p H)). rewrite orb_true_r. cbn [orb] in *. exact IH.
+    + specialize (IH a true _ (inv_opS a b p H)). rewrite orb_true_r. cbn [orb] in *. exact IH.
+    + specialize (IH true true _ (inv_opS _ _ _ (inv_opK a b p H))).
+      rewrite !orb_true_r. cbn [orb] in *. exact IH.
+Qed.
+Lemma run_establishes steps p : shaped c dims p -> inv (hasK steps) (hasS steps) (run root c steps p).
+Proof.
+  intros H. apply (run_inv steps false false p).
+  eapply Forall2_impl. exact H. cbn beta. intros su ku Hu. eapply Forall2_impl. exact Hu. cbn beta.
+  intros s vs Hsh. split; [exact Hsh|split; intros; discriminate].
+Qed.
+End Inv.
+
+Lemma run_bias c steps p : p_bias (run root c steps p) = p_bias p.
+Proof. revert p. induction steps as [|st steps IH]; intros p. reflexivity.
+  unfold run. cbn [fold_left]. fold (run root c steps (apply_step root c p st)). rewrite IH. destruct st; reflexivity. Qed.
+
+(* instance 1: the properties that make the output monotone and bounded *)
+Lemma good_HK c dims : cfg_ok c dims -> forall s vs, tshape (c_size c) dims vs ->
+  tshape (c_size c) dims (Ktg c s vs) /\ kgood c s (Ktg c s vs).
+Proof.
+  intros Hc s vs Hsh. unfold Ktg. destruct (gate c) eqn:G. apply Kt_good; assumption.
+  split. exact Hsh. apply kgood_gate_closed, G.
+Qed.
+Lemma run_good c dims steps p : cfg_ok c dims -> shaped c dims p ->
+  inv c dims (kgood c) (sgood c) (hasK steps) (hasS steps) (run root c steps p).
+Proof.
+  intros Hc Hsh. pose proof Hc as (_ & _ & Hb & _). apply run_establishes; auto.
+  - apply good_HK, Hc.
+  - intros s vs. apply kgood_scale, Hb.
+  - intros s. apply sgood_finalize, Hb.
+Qed.
+End Root.
+
+
+(* ------------------------------------------------------------------ *)
+(* input points                                                        *)
+Definition in_range (L : nat) (xs : list Q) : Prop := Forall (fun x => 0 <= x /\ x <= qn L - 1) xs.
+(* ys is obtained from xs by increasing some of the monotone coordinates *)
+Fixpoint coords_le (ms : list bool) (xs ys : list Q) : Prop :=
+  match ms, xs, ys with
+  | [], [], [] => True
+  | m :: ms', x :: xs', y :: ys' => (if m : bool then x <= y else x = y) /\ coords_le ms' xs' ys'
+  | _, _, _ => False
+  end.
+
+Lemma clip_in_range clip L xs : (2 <= L)%nat -> clip = true \/ in_range L xs -> in_range L (map (clip_in clip L) xs).
+Proof.
+  intros HL H. pose proof (qn_ge1 L ltac:(lia)) as H1. unfold in_range, clip_in.
+  destruct clip.
+  - apply Forall_map_any. intros x. apply qclip_range. lra.
+  - destruct H as [H|H]; [discriminate|]. apply Forall_map_impl with (P := fun x => 0 <= x /\ x <= qn L - 1); auto.
+Qed.
+Lemma coords_le_clip clip L : forall ms xs ys, coords_le ms xs ys ->
+  coords_le ms (map (clip_in clip L) xs) (map (clip_in clip L) ys).
+Proof.
+  induction ms as [|m ms IH]; intros [|x xs] [|y ys] H; cbn [coords_le map] in *; try contradiction; auto.
+  destruct H as [H1 H2]. split; [|apply IH; exact H2].
+  destruct m. unfold clip_in. destruct clip; [apply qclip_mono|]; exact H1. rewrite H1; reflexivity.
+Qed.
+Lemma coords_le_no_mono : forall ms xs ys, count_true ms = 0%nat -> coords_le ms xs ys -> xs = ys.
+Proof.
+  induction ms as [|m ms IH]; intros [|x xs] [|y ys] Hc H; cbn [coords_le] in *; try contradiction; auto.
+  destruct H as [H1 H2]. destruct m. discriminate. f_equal. exact H1. apply IH; assumption.
+Qed.
+Lemma coords_le_length : forall ms xs ys, coords_le ms xs ys -> length xs = length ms /\ length ys = length ms.
+Proof.
+  induction ms as [|m ms IH]; intros [|x xs] [|y ys] H; cbn [coords_le] in *; try contradiction; auto.
+  destruct H as [_ H]. destruct (IH _ _ H). cbn; split; congruence.
+Qed.
+
+(* ------------------------------------------------------------------ *)
+(* 1-D facts in the form used below                                    *)
+Lemma vec_abs_bound v : Forall (fun w => - maxabs v <= w /\ w <= maxabs v) v.
+Proof.
+  apply Forall_forall. intros w Hw. unfold maxabs.
+  pose proof (qmaxl_ge (map qabs v) (qabs w) (in_map qabs v w Hw)). revert H. qcases; lra.
+Qed.
+Lemma pwl1d_abs L v x : length v = L -> (2 <= L)%nat -> 0 <= x -> x <= qn L - 1 ->
+  - maxabs v <= pwl1d L v x /\ pwl1d L v x <= maxabs v.
+Proof.
+  intros Hl HL H0 H1. rewrite (pwl1d_cell L v x Hl HL H0 H1).
+  apply cell_between. destruct v; cbn in *; [lia|congruence]. apply vec_abs_bound. change (qn 0) with 0; exact H0.
+Qed.
+Lemma pwl1d_nonneg L v x : length v = L -> (2 <= L)%nat -> 0 <= x -> x <= qn L - 1 -> vnonneg v -> 0 <= pwl1d L v x.
+Proof.
+  intros Hl HL H0 H1 Hn. rewrite (pwl1d_cell L v x Hl HL H0 H1).
+  apply (cell_between 0 (qmaxl v)). destruct v; cbn in *; [lia|congruence].
+  apply Forall_forall. intros w Hw. split. unfold vnonneg in Hn. rewrite Forall_forall in Hn. auto. apply qmaxl_ge, Hw.
+  change (qn 0) with 0; exact H0.
+Qed.
+Lemma pwl1d_mono L v x y : length v = L -> (2 <= L)%nat -> 0 <= x -> x <= y -> y <= qn L - 1 -> sorted v ->
+  pwl1d L v x <= pwl1d L v y.
+Proof.
+  intros Hl HL H0 Hxy H1 Hs. rewrite (pwl1d_cell L v x Hl HL H0 ltac:(lra)), (pwl1d_cell L v y Hl HL ltac:(lra) H1).
+  apply cell_mono; [assumption|change (qn 0) with 0; assumption|assumption].
+Qed.
+Lemma pwl1d_anti L v x y : length v = L -> (2 <= L)%nat -> 0 <= x -> x <= y -> y <= qn L - 1 -> rsorted v ->
+  pwl1d L v y <= pwl1d L v x.
+Proof.
+  intros Hl HL H0 Hxy H1 Hs. rewrite (pwl1d_cell L v x Hl HL H0 ltac:(lra)), (pwl1d_cell L v y Hl HL ltac:(lra) H1).
+  apply cell_anti; [assumption|change (qn 0) with 0; assumption|assumption].
+Qed.
+
+(* ------------------------------------------------------------------ *)
+(* one term                                                            *)
+Section Term.
+Variable L : nat.
+Hypothesis HL : (2 <= L)%nat.
+
+Lemma factors_up : forall ms vs xs ys,
+  Forall2 (fun (m : bool) v => m = true -> sorted v) ms vs -> tnonneg vs -> Forall (fun v => length v = L) vs ->
+  coords_le ms xs ys -> in_range L xs -> in_range L ys ->
+  Forall2 (fun a b => 0 <= a /\ a <= b) (map2 (pwl1d L) vs xs) (map2 (pwl1d L) vs ys).
+Proof.
+  intros ms vs xs ys H. revert xs ys. induction H as [|m v ms vs Hm _ IH]; intros [|x xs] [|y ys] Hn Hl Hc Hx Hy;
+    cbn [coords_le map2] in *; try contradiction; try constructor.
+  - inversion Hn; inversion Hl; inversion Hx as [|? ? [X0 X1]]; inversion Hy as [|? ? [Y0 Y1]]; subst.
+    destruct Hc as [Hc _]. split. apply pwl1d_nonneg; auto.
+    destruct m. apply pwl1d_mono; auto. subst y. lra.
+  - inversion Hn; inversion Hl; inversion Hx; inversion Hy; subst. destruct Hc as [_ Hc]. apply IH; auto.
+Qed.
+Lemma factors_down : forall ms vs xs ys,
+  Forall2 (fun (m : bool) v => m = true -> rsorted v) ms vs -> tnonneg vs -> Forall (fun v => length v = L) vs ->
+  coords_le ms xs ys -> in_range L xs -> in_range L ys ->
+  Forall2 (fun a b => 0 <= a /\ a <= b) (map2 (pwl1d L) vs ys) (map2 (pwl1d L) vs xs).
+Proof.
+  intros ms vs xs ys H. revert xs ys. induction H as [|m v ms vs Hm _ IH]; intros [|x xs] [|y ys] Hn Hl Hc Hx Hy;
+    cbn [coords_le map2] in *; try contradiction; try constructor.
+  - inversion Hn; inversion Hl; inversion Hx as [|? ? [X0 X1]]; inversion Hy as [|? ? [Y0 Y1]]; subst.
+    destruct Hc as [Hc _]. split. apply pwl1d_nonneg; auto.
+    destruct m. apply pwl1d_anti; auto. subst y. lra.
+  - inversion Hn; inversion Hl; inversion Hx; inversion Hy; subst. destruct Hc as [_ Hc]. apply IH; auto.
+Qed.
+
+Lemma term_out_mono ms s vs xs ys : term_good ms s vs -> Forall (fun v => length v = L) vs ->
+  coords_le ms xs ys -> in_range L xs -> in_range L ys -> term_out L xs s vs <= term_out L ys s vs.
+Proof.
+  intros [H|[(Hs & Hn & Hso)|(Hs & Hn & Hso)]] Hl Hc Hx Hy; unfold term_out.
+  - rewrite H. lra.
+  - destruct (qprod_le _ _ (factors_up ms vs xs ys Hso Hn Hl Hc Hx Hy)) as [_ H]. apply qmul_le_l; lra.
+  - destruct (qprod_le _ _ (factors_down ms vs xs ys Hso Hn Hl Hc Hx Hy)) as [_ H]. apply qmul_le_l_neg; lra.
+Qed.
+
+Lemma factors_abs : forall vs xs, Forall (fun v => length v = L) vs -> length xs = length vs -> in_range L xs ->
+  Forall2 (fun a m => - m <= a /\ a <= m) (map2 (pwl1d L) vs xs) (map maxabs vs).
+Proof.
+  induction vs as [|v vs IH]; intros [|x xs] Hl Hlen Hx; cbn [map2 map length] in *; try discriminate; constructor.
+  - inversion Hl; inversion Hx as [|? ? [X0 X1]]; subst. apply pwl1d_abs; auto.
+  - inversion Hl; inversion Hx; subst. apply IH; auto.
+Qed.
+Lemma term_out_abs dims s vs xs b : tshape L dims vs -> length xs = dims -> in_range L xs ->
+  prodmax vs <= 1 -> - b <= s -> s <= b -> - b <= term_out L xs s vs /\ term_out L xs s vs <= b.
+Proof.
+  intros [Hd Hl] Hlen Hx Hp Hb1 Hb2. unfold term_out.
+  assert (Hlen' : length xs = length vs) by congruence.
+  destruct (qprod_abs _ _ (factors_abs vs xs Hl Hlen' Hx)) as [P1 P2]. fold (prodmax vs) in P1, P2.
+  set (P := qprod (map2 (pwl1d L) vs xs)) in *.
+  pose proof (qmul_nonneg (b - s) (1 + P) ltac:(lra) ltac:(lra)).
+  pose proof (qmul_nonneg (b + s) (1 - P) ltac:(lra) ltac:(lra)).
+  pose proof (qmul_nonneg (b - s) (1 - P) ltac:(lra) ltac:(lra)).
+  pose proof (qmul_nonneg (b + s) (1 + P) ltac:(lra) ltac:(lra)).
+  split; lra.
+Qed.
+Lemma factors_nonneg : forall vs xs, tnonneg vs -> Forall (fun v => length v = L) vs -> in_range L xs ->
+  Forall2 (fun a b => 0 <= a /\ a <= b) (map2 (pwl1d L) vs xs) (map2 (pwl1d L) vs xs).
+Proof.
+  induction vs as [|v vs IH]; intros [|x xs] Hn Hl Hx; cbn [map2] in *; constructor.
+  - inversion Hn; inversion Hl; inversion Hx as [|? ? [X0 X1]]; subst. split; [apply pwl1d_nonneg; auto|lra].
+  - inversion Hn; inversion Hl; inversion Hx; subst. apply IH; auto.
+Qed.
+Lemma term_prod_nonneg vs xs : tnonneg vs -> Forall (fun v => length v = L) vs -> in_range L xs ->
+  0 <= qprod (map2 (pwl1d L) vs xs).
+Proof. intros Hn Hl Hx. destruct (qprod_le _ _ (factors_nonneg vs xs Hn Hl Hx)) as [H _]. exact H. Qed.
+End Term.
+
+Lemma qmean_nil : qmean [] == 0.
+Proof. reflexivity. Qed.
+Lemma qmean_between0 l lo hi : lo <= 0 -> 0 <= hi -> Forall (fun a => lo <= a /\ a <= hi) l -> lo <= qmean l /\ qmean l <= hi.
+Proof.
+  intros H1 H2 HF. destruct l as [|a l]. pose proof qmean_nil as Q0. split; lra.
+  apply qmean_between. congruence. exact HF.
+Qed.
+
+
+Section Main.
+Variable root : nat -> Q -> Q.
+Hypothesis Hroot : root_ok root.
+
+(* ------------------------------------------------------------------ *)
+(* C07_monotone                                                        *)
+Lemma unit_eval_mono clip L dims ms su ku b xs ys : (2 <= L)%nat ->
+  Forall2 (fun s vs => tshape L dims vs /\ term_good ms s vs) su ku ->
+  coords_le ms xs ys -> clip = true \/ (in_range L xs /\ in_range L ys) ->
+  unit_eval clip L su ku b xs <= unit_eval clip L su ku b ys.
+Proof.
+  intros HL H Hc Hr. unfold unit_eval.
+  assert (Hx : in_range L (map (clip_in clip L) xs)) by (apply clip_in_range; tauto).
+  assert (Hy : in_range L (map (clip_in clip L) ys)) by (apply clip_in_range; tauto).
+  pose proof (coords_le_clip clip L ms xs ys Hc) as Hc'.
+  set (xs' := map (clip_in clip L) xs) in *. set (ys' := map (clip_in clip L) ys) in *.
+  assert (Forall2 Qle (map2 (term_out L xs') su ku) (map2 (term_out L ys') su ku)).
+  { induction H as [|s vs su ku [[_ Hsh] Hg] _ IH]; cbn [map2]; constructor; [|exact IH].
+    apply (term_out_mono L HL ms); assumption. }
+  pose proof (qmean_le _ _ H0). lra.
+Qed.
+
+Theorem kfl_monotone c dims p steps ms u xs ys :
+  cfg_ok c dims -> shaped c dims p -> hasK steps = true ->
+  canon_monos (c_monos c) = Some ms ->
+  coords_le ms xs ys ->
+  c_clip c = true \/ (in_range (c_size c) xs /\ in_range (c_size c) ys) ->
+  unit_out c (run root c steps p) u xs <= unit_out c (run root c steps p) u ys.
+Proof.
+  intros Hc Hsh HK Em Hle Hr.
+  destruct (Nat.eq_dec (count_true ms) 0) as [E0|E0].
+  - rewrite (coords_le_no_mono ms xs ys E0 Hle). lra.
+  - pose proof (run_good root Hroot c dims steps p Hc Hsh) as Hinv. rewrite HK in Hinv.
+    unfold unit_out. set (p' := run root c steps p) in *.
+    destruct (Nat.lt_ge_cases u (length (p_scale p'))) as [Hu|Hu].
+    + pose proof (Forall2_nth _ _ _ u [] [] Hinv Hu) as Hu'. cbn beta in Hu'.
+      destruct Hc as (HL & _). apply (unit_eval_mono _ _ dims ms); auto.
+      eapply Forall2_impl. exact Hu'. cbn beta. intros s vs (H1 & H2 & _). split. exact H1.
+      destruct (H2 eq_refl) as [H3 _]. apply H3. exact Em. lia.
+    + rewrite (nth_overflow (p_scale p') [] Hu). unfold unit_eval. cbn [map2]. lra.
+Qed.
+
+(* ------------------------------------------------------------------ *)
+(* C07_bounded                                                         *)
+Lemma unit_eval_bounded c dims su ku b xs :
+  cfg_ok c dims ->
+  Forall2 (fun s vs => tshape (c_size c) dims vs /\ kgood c s vs /\ sgood c s) su ku ->
+  length xs = dims -> c_clip c = true \/ in_range (c_size c) xs ->
+  b == bias_init1 (c_min c) (c_max c) ->
+  (forall lo, c_min c = Some lo -> lo <= unit_eval (c_clip c) (c_size c) su ku b xs) /\
+  (forall hi, c_max c = Some hi -> unit_eval (c_clip c) (c_size c) su ku b xs <= hi).
+Proof.
+  intros (HL & Hd & Hb & _) H Hlen Hr Eb. unfold unit_eval.
+  assert (Hx : in_range (c_size c) (map (clip_in (c_clip c) (c_size c)) xs)) by (apply clip_in_range; tauto).
+  assert (Hlen' : length (map (clip_in (c_clip c) (c_size c)) xs) = dims) by (rewrite map_length; exact Hlen).
+  set (xs' := map (clip_in (c_clip c) (c_size c)) xs) in *.
+  unfold kgood, sgood, bias_init1, bounds_ok in *.
+  destruct (c_min c) as [lo|] eqn:Emin, (c_max c) as [hi|] eqn:Emax; cbn [is_some] in *.
+  - specialize (Hb lo hi eq_refl eq_refl).
+    assert (HF : Forall (fun a => - ((hi - lo) * (1#2)) <= a /\ a <= (hi - lo) * (1#2)) (map2 (term_out (c_size c) xs') su ku)).
+    { induction H as [|s vs su ku (Hsh & (_ & Hp & _) & Hs1 & Hs2) _ IH]; cbn [map2]; constructor; [|exact IH].
+      apply (term_out_abs (c_size c) HL dims); auto. }
+    assert (B1 : - ((hi - lo) * (1#2)) <= 0) by lra. assert (B2 : 0 <= (hi - lo) * (1#2)) by lra.
+    destruct (qmean_between0 _ _ _ B1 B2 HF) as [M1 M2].
+    split; intros b' E; injection E as <-; lra.
+  - assert (HF : Forall (fun a => 0 <= a /\ a <= qmaxl (map2 (term_out (c_size c) xs') su ku)) (map2 (term_out (c_size c) xs') su ku)).
+    { apply Forall_forall. intros a Ha. split; [|apply qmaxl_ge, Ha]. clear - H Ha HL Hx.
+      induction H as [|s vs su ku (Hsh & (_ & _ & Hn) & Hs) _ IH]; cbn [map2] in Ha. contradiction.
+      destruct Ha as [<-|Ha]; [|apply IH, Ha]. unfold term_out. apply qmul_nonneg. exact Hs.
+      destruct Hsh as [_ Hl]. apply term_prod_nonneg; auto. apply Hn. discriminate. }
+    destruct (map2 (term_out (c_size c) xs') su ku) as [|a l] eqn:El.
+    + pose proof qmean_nil as Q0. split; intros b' E; [injection E as <-; lra|discriminate].
+    + destruct (qmean_between (a :: l) _ _ ltac:(congruence) HF) as [M1 _].
+      split; intros b' E; [injection E as <-; lra|discriminate].
+  - assert (HF : Forall (fun a => qminl (map2 (term_out (c_size c) xs') su ku) <= a /\ a <= 0) (map2 (term_out (c_size c) xs') su ku)).
+    { apply Forall_forall. intros a Ha. split; [apply qminl_le, Ha|]. clear - H Ha HL Hx.
+      induction H as [|s vs su ku (Hsh & (_ & _ & Hn) & Hs) _ IH]; cbn [map2] in Ha. contradiction.
+      destruct Ha as [<-|Ha]; [|apply IH, Ha]. unfold term_out.
+      destruct Hsh as [_ Hl]. pose proof (term_prod_nonneg (c_size c) HL vs xs' (Hn ltac:(discriminate)) Hl Hx) as Hpn.
+      pose proof (qmul_nonneg (- s) _ ltac:(lra) Hpn). lra. }
+    destruct (map2 (term_out (c_size c) xs') su ku) as [|a l] eqn:El.
+    + pose proof qmean_nil as Q0. split; intros b' E; [discriminate|injection E as <-; lra].
+    + destruct (qmean_between (a :: l) _ _ ltac:(congruence) HF) as [_ M2].
+      split; intros b' E; [discriminate|injection E as <-; lra].
+  - split; intros b' E; discriminate.
+Qed.
+
+Theorem kfl_bounded c dims p steps u xs :
+  cfg_ok c dims -> shaped c dims p -> hasK steps = true -> hasS steps = true ->
+  (u < length (p_scale p))%nat ->
+  nth u (p_bias p) 0 == bias_init1 (c_min c) (c_max c) ->
+  length xs = dims -> c_clip c = true \/ in_range (c_size c) xs ->
+  (forall lo, c_min c = Some lo -> lo <= unit_out c (run root c steps p) u xs) /\
+  (forall hi, c_max c = Some hi -> unit_out c (run root c steps p) u xs <= hi).
+Proof.
+  intros Hc Hsh HK HS Hu Eb Hlen Hr.
+  pose proof (run_good root Hroot c dims steps p Hc Hsh) as Hinv. rewrite HK, HS in Hinv.
+  unfold unit_out. rewrite run_bias. set (p' := run root c steps p) in *.
+  destruct (Nat.lt_ge_cases u (length (p_scale p'))) as [Hu'|Hu'].
+  - pose proof (Forall2_nth _ _ _ u [] [] Hinv Hu') as H. cbn beta in H.
+    apply (unit_eval_bounded c dims); auto.
+    eapply Forall2_impl. exact H. cbn beta. intros s vs (H1 & H2 & H3). auto.
+  - pose proof (Forall2_length _ _ _ Hinv) as El.
+    rewrite (nth_overflow (p_scale p') [] Hu'). rewrite (nth_overflow (p_kern p') []) by lia.
+    apply (unit_eval_bounded c dims); auto.
+Qed.
+End Main.
+
+
+(* ------------------------------------------------------------------ *)
+(* pointwise equality of weights                                       *)
+Definition veq (a b : vec) : Prop := Forall2 Qeq a b.
+Definition teq (a b : term) : Prop := Forall2 veq a b.
+
+Lemma Forall2_refl {A} (R : A -> A -> Prop) : (forall x, R x x) -> forall l, Forall2 R l l.
+Proof. intros H l. induction l; constructor; auto. Qed.
+Lemma Forall2_comp {A B C} (R : A -> B -> Prop) (S : B -> C -> Prop) (T : A -> C -> Prop) :
+  (forall x y z, R x y -> S y z -> T x z) -> forall a b c, Forall2 R a b -> Forall2 S b c -> Forall2 T a c.
+Proof. intros H a b c H1. revert c. induction H1; intros c H2; inversion H2; subst; constructor; eauto. Qed.
+Lemma Forall2_flip {A B} (R : A -> B -> Prop) (S : B -> A -> Prop) :
+  (forall x y, R x y -> S y x) -> forall a b, Forall2 R a b -> Forall2 S b a.
+Proof. intros H a b H1. induction H1; constructor; auto. Qed.
+Lemma veq_refl v : veq v v. Proof. apply Forall2_refl. intros; reflexivity. Qed.
+Lemma veq_sym a b : veq a b -> veq b a. Proof. apply Forall2_flip. intros; symmetry; assumption. Qed.
+Lemma veq_trans a b c : veq a b -> veq b c -> veq a c.
+Proof. apply Forall2_comp. intros x y z H1 H2. rewrite H1; exact H2. Qed.
+Lemma teq_refl t : teq t t. Proof. apply Forall2_refl, veq_refl. Qed.
+Lemma teq_trans a b c : teq a b -> teq b c -> teq a c.
+Proof. apply Forall2_comp. apply veq_trans. Qed.
+
+Lemma veq_map_id (P : Q -> Prop) g v : Forall P v -> (forall w, P w -> g w == w) -> veq (map g v) v.
+Proof. induction 1; intros Hg; cbn [map]; constructor; auto. apply IHForall; assumption. Qed.
+Lemma sorted_head_eq a a' r : a == a' -> sorted (a :: r) -> sorted (a' :: r).
+Proof. intros E. destruct r as [|b r]. auto. cbn [sorted]. intros [H1 H2]. split; [lra|assumption]. Qed.
+Lemma sorted_veq : forall a b, veq a b -> sorted a -> sorted b.
+Proof.
+  induction a as [|x a IH]; intros b H Hs; inversion H as [|? y ? b' Hxy Hab]; subst. exact I.
+  destruct a as [|x' a']; inversion Hab as [|? y' ? b'' Hxy' Hab']; subst. exact I.
+  cbn [sorted] in Hs. destruct Hs as [H1 H2]. cbn [sorted]. split. lra. apply (IH (y' :: b'')); assumption.
+Qed.
+
+(* a sorted vector is a fixed point of the 1-D monotonicity projection *)
+Lemma cummax_from_fix : forall l m, sorted (m :: l) -> veq (cummax_from m l) l.
+Proof.
+  induction l as [|x r IH]; intros m Hs; cbn [cummax_from]. constructor.
+  cbn [sorted] in Hs. destruct Hs as [Hmx Hs].
+  assert (E : qmax x m == x) by (qcases; lra).
+  constructor. exact E. apply IH. apply (sorted_head_eq x). symmetry; exact E. exact Hs.
+Qed.
+Lemma cummax_fix u : sorted u -> veq (cummax u) u.
+Proof. destruct u as [|a r]; intros Hs; cbn [cummax]. constructor. constructor. reflexivity. apply cummax_from_fix, Hs. Qed.
+Lemma avg_fix : forall c u, veq c u -> veq (map2 (fun a m => (a + m) * (1#2)) u c) u.
+Proof. induction 1; cbn [map2]; constructor; auto. lra. Qed.
+Lemma cummin_back_fix : forall h, sorted h -> veq (cummin_back h) h.
+Proof.
+  induction h as [|a r IH]; intros Hs. constructor. rewrite cummin_back_cons. destruct r as [|b r0].
+  - cbn [cummin_back]. apply veq_refl.
+  - cbn [sorted] in Hs. destruct Hs as [Hab Hs]. specialize (IH Hs).
+    destruct (cummin_back (b :: r0)) as [|y l']; inversion IH as [|? ? ? ? Hy Hl]; subst.
+    constructor. qcases; lra. constructor; assumption.
+Qed.
+Lemma mono_proj1_fix u : sorted u -> veq (mono_proj1 u) u.
+Proof.
+  intros Hs. unfold mono_proj1. pose proof (avg_fix _ _ (cummax_fix u Hs)) as Hh.
+  set (h := map2 _ u (cummax u)) in *.
+  apply veq_trans with h; [|exact Hh]. apply cummin_back_fix. apply (sorted_veq u h); [apply veq_sym, Hh|exact Hs].
+Qed.
+
+Lemma rsorted_map_anti g v : (forall x y, x <= y -> g y <= g x) -> rsorted v -> sorted (map g v).
+Proof. intros Hg. induction v as [|a r IH]; intros H. exact I. destruct r as [|b r']. exact I.
+  destruct H as [H1 H2]. split. apply Hg, H1. apply IH, H2. Qed.
+
+Lemma pv_fix_pos m v : vnonneg v -> (m = true -> sorted v) -> veq (pv 1 m v) v.
+Proof.
+  intros Hn Hs. unfold pv.
+  assert (Hu : veq (vscale 1 (map relu v)) v).
+  { unfold vscale. rewrite map_map. apply (veq_map_id (fun w => 0 <= w)). exact Hn. intros w Hw. unfold relu. qcases; lra. }
+  set (u := vscale 1 (map relu v)) in *.
+  assert (H1 : forall x, veq (vscale 1 x) x).
+  { intros x. unfold vscale. apply (veq_map_id (fun _ => True)). apply Forall_forall; auto. intros; lra. }
+  destruct m.
+  - apply veq_trans with (mono_proj1 u). apply H1. apply veq_trans with u; [|exact Hu].
+    apply mono_proj1_fix. apply (sorted_veq v u). apply veq_sym, Hu. auto.
+  - apply veq_trans with u. apply H1. exact Hu.
+Qed.
+Lemma vscale_neg_fix : forall x v, Forall2 (fun a w => a == - w) x v -> veq (vscale (-1) x) v.
+Proof. unfold vscale. induction 1; cbn [map]; constructor; auto. lra. Qed.
+Lemma pv_fix_neg m v : vnonneg v -> (m = true -> rsorted v) -> veq (pv (-1) m v) v.
+Proof.
+  intros Hn Hs. unfold pv.
+  assert (Hu : Forall2 (fun x w => x == - w) (vscale (-1) (map relu v)) v).
+  { unfold vscale. rewrite map_map. clear Hs. induction Hn; cbn [map]; constructor; auto. unfold relu. qcases; lra. }
+  assert (Hso : m = true -> sorted (vscale (-1) (map relu v))).
+  { intros E. unfold vscale. rewrite map_map. apply rsorted_map_anti; auto. intros x y H. unfold relu. qcases; lra. }
+  set (u := vscale (-1) (map relu v)) in *.
+  pose proof (fun x => vscale_neg_fix x v) as H1.
+  destruct m.
+  - apply H1. apply (Forall2_comp Qeq (fun x w => x == - w)) with u.
+    intros x y z E1 E2. lra. apply mono_proj1_fix; auto. exact Hu.
+  - apply H1. exact Hu.
+Qed.
+
+Lemma map2_pv_fix dir (P : bool -> vec -> Prop) :
+  (forall m v, vnonneg v -> P m v -> veq (pv dir m v) v) ->
+  forall ms w, Forall2 P ms w -> tnonneg w -> teq (map2 (fun v m => pv dir m v) w ms) w.
+Proof.
+  intros H ms w HF. induction HF as [|m v ms w Hp _ IH]; intros Hn; cbn [map2]. constructor.
+  inversion Hn; subst. constructor; auto. apply IH; assumption.
+Qed.
+Lemma mono_stage_fix ms s w : ~ s == 0 -> term_good ms s w -> teq (project_mono_term ms s (clip0 w)) w.
+Proof.
+  intros Hs Hg. rewrite project_mono_term_pv. destruct Hg as [H|[(H1 & Hn & Hso)|(H1 & Hn & Hso)]]. contradiction.
+  - destruct (qsgn_cases s) as [[_ ->]|[[H2 _]|[H2 _]]]; try lra.
+    apply (map2_pv_fix 1 (fun (m : bool) v => m = true -> sorted v)); auto. intros; apply pv_fix_pos; auto.
+  - destruct (qsgn_cases s) as [[H2 _]|[[_ ->]|[H2 _]]]; try lra.
+    apply (map2_pv_fix (-1) (fun (m : bool) v => m = true -> rsorted v)); auto. intros; apply pv_fix_neg; auto.
+Qed.
+
+(* proper-ness of the reductions used by the bounds stage *)
+Lemma fold_qmax_proper : forall l l', Forall2 Qeq l l' -> forall a a', a == a' -> fold_left qmax l a == fold_left qmax l' a'.
+Proof. induction 1; intros a a' E; cbn [fold_left]. exact E. apply IHForall2. apply qmax_proper; assumption. Qed.
+Lemma maxabs_proper a b : veq a b -> maxabs a == maxabs b.
+Proof.
+  intros H. unfold maxabs. destruct H as [|x y a b Hxy Hab]; cbn [map qmaxl]. reflexivity.
+  apply fold_qmax_proper. induction Hab; cbn [map]; constructor; auto. apply qabs_proper; assumption.
+  apply qabs_proper; assumption.
+Qed.
+Lemma prodmax_proper a b : teq a b -> prodmax a == prodmax b.
+Proof. unfold prodmax. induction 1; cbn [map qprod]. reflexivity. rewrite (maxabs_proper _ _ H), IHForall2. reflexivity. Qed.
+Lemma teq_map_id g t : (forall w, g w == w) -> teq (map (map g) t) t.
+Proof.
+  intros Hg. induction t as [|v t IH]; cbn [map]; constructor; auto.
+  apply (veq_map_id (fun _ => True)). apply Forall_forall; auto. auto.
+Qed.
+Lemma teq_relu t w : teq t w -> tnonneg w -> teq (clip0 t) w.
+Proof.
+  unfold clip0. induction 1 as [|a b t w Hab _ IH]; intros Hn; cbn [map]. constructor.
+  inversion Hn as [|? ? Hb Hw]; subst. constructor; [|apply IH; assumption].
+  clear - Hab Hb. induction Hab; cbn [map]; constructor.
+  inversion Hb; subst. qcases; lra. inversion Hb; subst. apply IHHab; assumption.
+Qed.
+
+Section Root.
+Variable root : nat -> Q -> Q.
+Hypothesis Hroot : root_ok root.
+
+Lemma bounds_stage_fix omin omax t w : (1 <= length t)%nat -> teq t w ->
+  (is_some omin = true -> is_some omax = true -> prodmax w <= 1) ->
+  (is_some omin <> is_some omax -> tnonneg w) ->
+  teq (if is_some omin || is_some omax then project_bounds_term root omin omax t else t) w.
+Proof.
+  intros Hd Ht H2 H1. destruct omin as [lo|], omax as [hi|]; cbn [is_some orb project_bounds_term].
+  - apply teq_trans with t; [|exact Ht]. apply teq_map_id. intros x.
+    assert (E : qmax (prodmax t) 1 == 1).
+    { rewrite (prodmax_proper _ _ Ht). specialize (H2 eq_refl eq_refl). qcases; lra. }
+    destruct (Hroot (length t) (qmax (prodmax t) 1) Hd (qmax_r _ _)) as (_ & _ & Hone).
+    rewrite (Hone E). unfold Qdiv. change (/ 1) with 1. ring.
+  - apply teq_relu. exact Ht. apply H1. discriminate.
+  - apply teq_relu. exact Ht. apply H1. discriminate.
+  - exact Ht.
+Qed.
+
+(* the kernel constraint is idempotent on every term whose scale is not zero
+   (a zero scale zeroes the weights; see kt_zero below) *)
+Lemma Kt_settled c dims s vs : cfg_ok c dims -> tshape (c_size c) dims vs ->
+  s == 0 \/ teq (Kt root c s (Kt root c s vs)) (Kt root c s vs).
+Proof.
+  intros Hc Hsh. destruct (Qeq_dec s 0) as [E|E]; [left; exact E|right].
+  destruct (Kt_good root Hroot c dims s vs Hc Hsh) as [Hshw (G1 & G2 & G3)].
+  destruct Hc as (HL & Hd & Hb & Hms).
+  set (w := Kt root c s vs) in *. unfold Kt at 1. unfold finalize_weights_term.
+  assert (Hlen : length w = dims) by (destruct Hshw; assumption).
+  destruct (canon_monos (c_monos c)) as [ms|] eqn:Em.
+  - destruct (0 <? count_true ms)%nat eqn:Ec.
+    + apply Nat.ltb_lt in Ec. pose proof (mono_stage_fix ms s w E (G1 ms eq_refl Ec)) as Hm.
+      apply bounds_stage_fix; auto. rewrite (Forall2_length _ _ _ Hm). lia.
+    + apply bounds_stage_fix; auto. lia. apply teq_refl.
+  - apply bounds_stage_fix; auto. lia. apply teq_refl.
+Qed.
+Lemma Kt_sign c s s' vs : qsgn s = qsgn s' -> Kt root c s vs = Kt root c s' vs.
+Proof. intros E. unfold Kt, finalize_weights_term, project_mono_term. rewrite E. reflexivity. Qed.
+End Root.
+
+
+(* ------------------------------------------------------------------ *)
+(* relating two parameter sets entry by entry                          *)
+Fixpoint rel4 {A B} (R : A -> B -> A -> B -> Prop) (a : list A) (b : list B) (a' : list A) (b' : list B) : Prop :=
+  match a, b, a', b' with
+  | [], [], [], [] => True
+  | x :: a1, y :: b1, x' :: a1', y' :: b1' => R x y x' y' /\ rel4 R a1 b1 a1' b1'
+  | _, _, _, _ => False
+  end.
+Lemma rel4_K {A B} (P : A -> B -> Prop) (R : A -> B -> A -> B -> Prop) (f : A -> B -> B) a b :
+  Forall2 P a b -> (forall x y, P x y -> R x y x (f x y)) -> rel4 R a b a (map2 f a b).
+Proof. intros H HR. induction H; cbn [map2 rel4]; auto. Qed.
+Lemma rel4_S {A B} (P : A -> B -> Prop) (R : A -> B -> A -> B -> Prop) (g : A -> A) a b :
+  Forall2 P a b -> (forall x y, P x y -> R x y (g x) y) -> rel4 R a b (map g a) b.
+Proof. intros H HR. induction H; cbn [map rel4]; auto. Qed.
+Lemma rel4_id {A B} (P : A -> B -> Prop) (R : A -> B -> A -> B -> Prop) a b :
+  Forall2 P a b -> (forall x y, P x y -> R x y x y) -> rel4 R a b a b.
+Proof. intros H HR. induction H; cbn [rel4]; auto. Qed.
+Lemma rel4_trans {A B} (R : A -> B -> A -> B -> Prop) :
+  (forall x y x' y' x'' y'', R x y x' y' -> R x' y' x'' y'' -> R x y x'' y'') ->
+  forall a b a' b' a'' b'', rel4 R a b a' b' -> rel4 R a' b' a'' b'' -> rel4 R a b a'' b''.
+Proof.
+  intros HR. induction a as [|x a IH]; intros [|y b] [|x' a'] [|y' b'] [|x'' a''] [|y'' b''] H1 H2;
+    cbn [rel4] in *; try contradiction; auto.
+  destruct H1, H2. split; eauto.
+Qed.
+Lemma rel4_nth {A B} (R : A -> B -> A -> B -> Prop) :
+  forall a b a' b' u, rel4 (rel4 R) a b a' b' -> rel4 R (nth u a []) (nth u b []) (nth u a' []) (nth u b' []).
+Proof.
+  induction a as [|x a IH]; intros [|y b] [|x' a'] [|y' b'] u H; cbn [rel4] in H; try contradiction.
+  - destruct u; exact I.
+  - destruct H as [H1 H2]. destruct u; cbn [nth]. exact H1. apply IH, H2.
+Qed.
+
+(* Two states of one (unit, term) are equivalent when the scales agree and,
+   unless that scale is zero, the weights agree. *)
+Definition tequiv (s : Q) (vs : term) (s' : Q) (vs' : term) : Prop := s' == s /\ (s == 0 \/ teq vs' vs).
+Definition params_equiv (p q : params) : Prop :=
+  rel4 (rel4 tequiv) (p_scale p) (p_kern p) (p_scale q) (p_kern q) /\ p_bias q = p_bias p.
+Lemma tequiv_trans s vs s' vs' s'' vs'' : tequiv s vs s' vs' -> tequiv s' vs' s'' vs'' -> tequiv s vs s'' vs''.
+Proof.
+  intros [E1 H1] [E2 H2]. split. rewrite E2; exact E1.
+  destruct H1 as [H1|H1]; [left; exact H1|]. destruct H2 as [H2|H2]; [left; rewrite <- E1; exact H2|].
+  right. apply teq_trans with vs'; assumption.
+Qed.
+Lemma params_equiv_trans p q r : params_equiv p q -> params_equiv q r -> params_equiv p r.
+Proof.
+  intros [H1 B1] [H2 B2]. split; [|congruence].
+  eapply (rel4_trans (rel4 tequiv)); [|exact H1|exact H2].
+  intros. eapply (rel4_trans tequiv); eauto. intros; eapply tequiv_trans; eauto.
+Qed.
+
+(* ------------------------------------------------------------------ *)
+(* equivalent parameters give the same output                          *)
+Lemma dot_proper : forall w v v', veq v v' -> qsum (map2 Qmult w v) == qsum (map2 Qmult w v').
+Proof.
+  intros w v v' H. revert w. induction H as [|x y v v' Hxy _ IH]; intros [|a w]; cbn [map2 qsum]; try reflexivity.
+  rewrite Hxy, (IH w). reflexivity.
+Qed.
+Lemma factors_proper L xs : forall vs vs', teq vs vs' ->
+  qprod (map2 (pwl1d L) vs xs) == qprod (map2 (pwl1d L) vs' xs).
+Proof.
+  intros vs vs' H. revert xs. induction H as [|v v' vs vs' Hv _ IH]; intros [|x xs]; cbn [map2 qprod]; try reflexivity.
+  unfold pwl1d at 1 3. rewrite (dot_proper _ _ _ Hv), (IH xs). reflexivity.
+Qed.
+Lemma term_out_equiv L xs s vs s' vs' : tequiv s vs s' vs' -> term_out L xs s' vs' == term_out L xs s vs.
+Proof.
+  intros [E [H|H]]; unfold term_out; rewrite E.
+  - rewrite H. ring.
+  - rewrite (factors_proper L xs _ _ H). reflexivity.
+Qed.
+Lemma qsum_proper l l' : Forall2 Qeq l l' -> qsum l == qsum l'.
+Proof. induction 1; cbn [qsum]. reflexivity. rewrite H, IHForall2. reflexivity. Qed.
+Lemma qmean_proper l l' : Forall2 Qeq l l' -> qmean l == qmean l'.
+Proof. intros H. unfold qmean. rewrite (qsum_proper _ _ H), (Forall2_length _ _ _ H). reflexivity. Qed.
+Lemma terms_equiv L xs : forall su ku su' ku', rel4 tequiv su ku su' ku' ->
+  Forall2 Qeq (map2 (term_out L xs) su' ku') (map2 (term_out L xs) su ku).
+Proof.
+  induction su as [|s su IH]; intros [|vs ku] [|s' su'] [|vs' ku'] H; cbn [rel4] in H; try contradiction; cbn [map2].
+  constructor. destruct H as [H1 H2]. constructor. apply term_out_equiv, H1. apply IH, H2.
+Qed.
+Theorem equiv_same_output c p q u xs : params_equiv p q -> unit_out c q u xs == unit_out c p u xs.
+Proof.
+  intros [H B]. unfold unit_out, unit_eval. rewrite B.
+  rewrite (qmean_proper _ _ (terms_equiv _ _ _ _ _ _ (rel4_nth tequiv _ _ _ _ u H))). reflexivity.
+Qed.
+
+Section Root.
+Variable root : nat -> Q -> Q.
+Hypothesis Hroot : root_ok root.
+
+(* instance 2 of the invariant argument: fixed points *)
+Definition settledK (c : config) (s : Q) (vs : term) : Prop := s == 0 \/ teq (Ktg root c s vs) vs.
+Definition settledS (c : config) (s : Q) : Prop := S1 c s == s.
+
+Lemma qsgn_zero x : qsgn x = 0 -> x == 0.
+Proof. destruct (qsgn_cases x) as [[_ ->]|[[_ ->]|[H _]]]; [discriminate|discriminate|auto]. Qed.
+Lemma S1_keeps_sign c s : bounds_ok (c_min c) (c_max c) -> S1 c s == 0 \/ qsgn (S1 c s) = qsgn s.
+Proof.
+  intros Hb. unfold S1. destruct (finalize_scale1_qsgn (c_min c) (c_max c) s Hb) as [H|H].
+  right; exact H. left; apply qsgn_zero, H.
+Qed.
+Lemma Ktg_sign c s s' vs : qsgn s = qsgn s' -> Ktg root c s vs = Ktg root c s' vs.
+Proof. intros E. unfold Ktg. destruct (gate c); [apply Kt_sign, E|reflexivity]. Qed.
+
+Lemma settled_HK c dims : cfg_ok c dims -> forall s vs, tshape (c_size c) dims vs ->
+  tshape (c_size c) dims (Ktg root c s vs) /\ settledK c s (Ktg root c s vs).
+Proof.
+  intros Hc s vs Hsh. unfold settledK, Ktg. destruct (gate c) eqn:G.
+  - split. apply (Kt_good root Hroot c dims s vs Hc Hsh). apply (Kt_settled root Hroot c dims); assumption.
+  - split. exact Hsh. right. apply teq_refl.
+Qed.
+Lemma settled_HKS c : bounds_ok (c_min c) (c_max c) -> forall s vs, settledK c s vs -> settledK c (S1 c s) vs.
+Proof.
+  intros Hb s vs H. unfold settledK in *. destruct H as [H|H].
+  - left. destruct (finalize_scale1_sign (c_min c) (c_max c) s Hb) as [P N]. fold (S1 c s) in P, N.
+    destruct (Qlt_le_dec 0 (S1 c s)) as [H1|H1]. specialize (P H1); lra.
+    destruct (Qlt_le_dec (S1 c s) 0) as [H2|H2]. specialize (N H2); lra. lra.
+  - destruct (S1_keeps_sign c s Hb) as [E|E]. left; exact E.
+    right. rewrite (Ktg_sign c _ _ vs E). exact H.
+Qed.
+Lemma settled_HS c : bounds_ok (c_min c) (c_max c) -> forall s, settledS c (S1 c s).
+Proof. intros Hb s. unfold settledS, S1. apply finalize_scale1_idem, Hb. Qed.
+
+Lemma run_settled c dims steps p : cfg_ok c dims -> shaped c dims p ->
+  inv c dims (settledK c) (settledS c) (hasK steps) (hasS steps) (run root c steps p).
+Proof.
+  intros Hc Hsh. pose proof Hc as (_ & _ & Hb & _). apply run_establishes; auto.
+  - apply settled_HK, Hc.
+  - apply settled_HKS, Hb.
+  - apply settled_HS, Hb.
+Qed.
+
+(* one more application of anything changes nothing (up to equivalence) *)
+Lemma settled_opK c dims p : inv c dims (settledK c) (settledS c) true true p -> params_equiv p (opK root c p).
+Proof.
+  intros H. unfold params_equiv, opK. cbn [p_kern p_scale p_bias]. split; [|reflexivity].
+  unfold kfl_constraints_call. fold (gate c). destruct (gate c) eqn:G.
+  - unfold finalize_weights. eapply rel4_K. exact H. cbn beta. intros su ku Hu.
+    eapply rel4_K. exact Hu. cbn beta. intros s vs (_ & Hk & _). specialize (Hk eq_refl).
+    unfold settledK, Ktg in Hk. rewrite G in Hk. split. reflexivity. exact Hk.
+  - eapply rel4_id. exact H. cbn beta. intros su ku Hu. eapply rel4_id. exact Hu. cbn beta.
+    intros s vs _. split. reflexivity. right. apply teq_refl.
+Qed.
+Lemma settled_opS c dims p : inv c dims (settledK c) (settledS c) true true p -> params_equiv p (opS c p).
+Proof.
+  intros H. unfold params_equiv, opS. cbn [p_kern p_scale p_bias]. split; [|reflexivity].
+  unfold scale_constraints_call. destruct (has_bounds c) eqn:G.
+  - eapply rel4_S. exact H. cbn beta. intros su ku Hu. eapply rel4_S. exact Hu. cbn beta.
+    intros s vs (_ & _ & Hs). specialize (Hs eq_refl). split. exact Hs. right. apply teq_refl.
+  - eapply rel4_id. exact H. cbn beta. intros su ku Hu. eapply rel4_id. exact Hu. cbn beta.
+    intros s vs _. split. reflexivity. right. apply teq_refl.
+Qed.
+Lemma settled_run c dims : cfg_ok c dims -> forall more p, inv c dims (settledK c) (settledS c) true true p ->
+  params_equiv p (run root c more p).
+Proof.
+  intros Hc. pose proof Hc as (_ & _ & Hb & _).
+  assert (HK := settled_HK c dims Hc). assert (HKS := settled_HKS c Hb). assert (HS := settled_HS c Hb).
+  induction more as [|st more IH]; intros p H.
+  - cbn. split; [|reflexivity]. eapply rel4_id. exact H. cbn beta. intros su ku Hu. eapply rel4_id. exact Hu.
+    cbn beta. intros s vs _. split. reflexivity. right. apply teq_refl.
+  - unfold run. cbn [fold_left]. fold (run root c more (apply_step root c p st)). rewrite apply_step_ops.
+    pose proof (inv_opK root c dims _ _ HK true true p H) as IK.
+    pose proof (inv_opS c dims _ _ HKS HS true true p H) as IS.
+    destruct st.
+    + eapply params_equiv_trans. apply (settled_opK c dims p H). apply IH, IK.
+    + eapply params_equiv_trans. apply (settled_opS c dims p H). apply IH, IS.
+    + pose proof (inv_opS c dims _ _ HKS HS true true _ IK) as IKS.
+      eapply params_equiv_trans. apply (settled_opK c dims p H).
+      eapply params_equiv_trans. apply (settled_opS c dims _ IK). apply IH, IKS.
+Qed.
+Lemma run_app c steps more p : run root c (steps ++ more) p = run root c more (run root c steps p).
+Proof. unfold run. apply fold_left_app. Qed.
+
+Theorem kfl_idempotent c dims p steps more :
+  cfg_ok c dims -> shaped c dims p -> hasK steps = true -> hasS steps = true ->
+  params_equiv (run root c steps p) (run root c (steps ++ more) p).
+Proof.
+  intros Hc Hsh HK HS. rewrite run_app. apply (settled_run c dims Hc).
+  pose proof (run_settled c dims steps p Hc Hsh) as H. rewrite HK, HS in H. exact H.
+Qed.
+
+(* the kernel constraint applied before or after the scale constraint *)
+Lemma rel4_order {A B} (P : A -> B -> Prop) (R : A -> B -> A -> B -> Prop) (g : A -> A) (f : A -> B -> B) a b :
+  Forall2 P a b -> (forall x y, P x y -> R (g x) (f x y) (g x) (f (g x) y)) ->
+  rel4 R (map g a) (map2 f a b) (map g a) (map2 f (map g a) b).
+Proof. intros H HR. induction H; cbn [map map2 rel4]; auto. Qed.
+Lemma rel4_same {A B} (P : A -> B -> Prop) (R : A -> B -> A -> B -> Prop) (f : A -> B -> B) a b :
+  Forall2 P a b -> (forall x y, P x y -> R x (f x y) x (f x y)) -> rel4 R a (map2 f a b) a (map2 f a b).
+Proof. intros H HR. induction H; cbn [map2 rel4]; auto. Qed.
+
+Theorem kfl_order_irrelevant c dims p : cfg_ok c dims -> shaped c dims p ->
+  params_equiv (run root c [StepK; StepS] p) (run root c [StepS; StepK] p).
+Proof.
+  intros Hc Hsh. pose proof Hc as (_ & _ & Hb & _). unfold run. cbn [fold_left]. rewrite !apply_step_ops.
+  unfold params_equiv, opK, opS. cbn [p_kern p_scale p_bias]. split; [|reflexivity].
+  unfold scale_constraints_call, kfl_constraints_call. fold (gate c).
+  assert (Hrefl : forall s vs, tequiv s vs s vs) by (intros; split; [reflexivity|right; apply teq_refl]).
+  set (Sk := fun (su : list Q) (ku : list term) => Forall2 (fun (_ : Q) (_ : term) => True) su ku).
+  assert (Hsk : Forall2 Sk (p_scale p) (p_kern p)).
+  { eapply Forall2_impl. exact Hsh. cbn beta. intros su ku Hu. eapply Forall2_impl. exact Hu. auto. }
+  destruct (has_bounds c) eqn:GS; destruct (gate c) eqn:GK.
+  - unfold finalize_weights. eapply rel4_order. exact Hsk. cbn beta. intros su ku Hu.
+    eapply rel4_order. exact Hu. cbn beta. intros s vs _.
+    fold (S1 c s). split. reflexivity. destruct (S1_keeps_sign c s Hb) as [E|E]. left; exact E.
+    right. fold (Kt root c (S1 c s) vs). fold (Kt root c s vs). rewrite (Kt_sign root c _ _ vs E). apply teq_refl.
+  - eapply rel4_id with (P := Sk).
+    + eapply Forall2_map_l. exact Hsk. cbn beta. intros su ku Hu. eapply Forall2_map_l. exact Hu. auto.
+    + intros su ku Hu. eapply rel4_id. exact Hu. auto.
+  - unfold finalize_weights. eapply rel4_same. exact Hsk. cbn beta. intros su ku Hu.
+    eapply rel4_same. exact Hu. auto.
+  - eapply rel4_id. exact Hsk. intros su ku Hu. eapply rel4_id. exact Hu. auto.
+Qed.
+End Root.
+
+
+(* the root hypothesis is satisfiable (by a crude upper root) *)
+Lemma qpow_ge1 x d : 1 <= x -> 1 <= qpow x d.
+Proof. intros H. induction d as [|d IH]; cbn [qpow]. lra. pose proof (qmul_le_l x 1 (qpow x d) ltac:(lra) IH). lra. Qed.
+Lemma root_ok_id : root_ok (fun _ x => x).
+Proof.
+  intros d x Hd Hx. split; [exact Hx|split; [|auto]].
+  destruct d as [|d]. lia. cbn [qpow]. pose proof (qpow_ge1 x d Hx).
+  pose proof (qmul_le_l x 1 (qpow x d) ltac:(lra) H). lra.
+Qed.
+
+(* moving one monotone coordinate up *)
+Lemma coords_le_refl : forall ms xs, length xs = length ms -> coords_le ms xs xs.
+Proof.
+  induction ms as [|m ms IH]; intros [|x xs] H; cbn in *; try discriminate; auto.
+  split. destruct m; [lra|reflexivity]. apply IH. lia.
+Qed.
+Lemma coords_le_set_nth : forall ms xs d y, length xs = length ms -> nth d ms false = true -> nth d xs 0 <= y ->
+  coords_le ms xs (set_nth d y xs).
+Proof.
+  induction ms as [|m ms IH]; intros [|x xs] d y Hl Hm Hy; cbn [length] in *; try discriminate.
+  - destruct d; discriminate.
+  - destruct d as [|d]; cbn [nth set_nth coords_le] in *.
+    + subst m. split. exact Hy. apply coords_le_refl. lia.
+    + split. destruct m; [lra|reflexivity]. apply IH; auto.
+Qed.
+
+Section Root.
+Variable root : nat -> Q -> Q.
+Hypothesis Hroot : root_ok root.
+Theorem kfl_monotone_single c dims p steps ms u xs d y :
+  cfg_ok c dims -> shaped c dims p -> hasK steps = true ->
+  canon_monos (c_monos c) = Some ms -> length xs = dims ->
+  nth d ms false = true -> nth d xs 0 <= y ->
+  c_clip c = true \/ (in_range (c_size c) xs /\ in_range (c_size c) (set_nth d y xs)) ->
+  unit_out c (run root c steps p) u xs <= unit_out c (run root c steps p) u (set_nth d y xs).
+Proof.
+  intros Hc Hsh HK Em Hl Hm Hy Hr. apply (kfl_monotone root Hroot c dims p steps ms); auto.
+  apply coords_le_set_nth; auto. destruct Hc as (_ & _ & _ & H). rewrite (H ms Em). exact Hl.
+Qed.
+End Root.
+
+(* ------------------------------------------------------------------ *)
+(* concrete witnesses                                                  *)
+Definition wit_cfg : config := mkCfg 2 (Some [true]) (Some 0) None true.
+Definition wit_par : params := mkPar [[ [[1; 2]] ]] [[ -1 ]] [0].
+Lemma wit_cfg_ok : cfg_ok wit_cfg 1.
+Proof.
+  split; [cbn; lia|split; [lia|split]].
+  - intros lo hi _ H; discriminate.
+  - intros ms E. injection E as <-. reflexivity.
+Qed.
+Lemma wit_shaped : shaped wit_cfg 1 wit_par.
+Proof. repeat constructor. Qed.
+Lemma idempotent_params_witness : exists c p,
+  cfg_ok c 1 /\ shaped c 1 p /\
+  ~ Forall2 (Forall2 teq) (p_kern (run qroot c [StepK; StepS] p))
+                          (p_kern (run qroot c [StepK; StepS; StepK] p)).
+Proof.
+  exists wit_cfg, wit_par. split; [exact wit_cfg_ok|split; [exact wit_shaped|]].
+  intros H. vm_compute in H.
+  inversion H as [|? ? ? ? H1 _]; subst. inversion H1 as [|? ? ? ? H2 _]; subst.
+  inversion H2 as [|? ? ? ? H3 _]; subst. inversion H3 as [|? ? ? ? H4 _]; subst.
+  vm_compute in H4. discriminate H4.
+Qed.
+Lemma hypotheses_witness : exists root c dims p steps ms xs ys,
+  root_ok root /\ cfg_ok c dims /\ shaped c dims p /\ hasK steps = true /\ hasS steps = true /\
+  canon_monos (c_monos c) = Some ms /\ coords_le ms xs ys /\
+  in_range (c_size c) xs /\ in_range (c_size c) ys /\ length xs = dims /\
+  (0 < length (p_scale p))%nat /\ nth 0 (p_bias p) 0 == bias_init1 (c_min c) (c_max c).
+Proof.
+  exists (fun _ x => x), wit_cfg, 1%nat, wit_par, [StepK; StepS], [true], [1#2], [1].
+  split; [exact root_ok_id|split; [exact wit_cfg_ok|split; [exact wit_shaped|]]].
+  split; [reflexivity|split; [reflexivity|split; [reflexivity|]]].
+  split. { cbn. split; [lra|exact I]. }
+  split. { constructor; [|constructor]. change (qn (c_size wit_cfg)) with 2. lra. }
+  split. { constructor; [|constructor]. change (qn (c_size wit_cfg)) with 2. lra. }
+  split; [reflexivity|split; [cbn; lia|cbn; lra]].
+Qed.
